@@ -408,4 +408,1819 @@ theorem foldTeams_eq (c : Cfg) {n : Nat} {p : Plan} (hs : Shape n p) (T0 : List 
     simp only [Option.some.injEq, G.mk.injEq, Errs.mk.injEq]
     refine ⟨⟨?_, ?_, ?_, ?_, ?_, ?_, ?_, ?_⟩, ?_, ?_⟩ <;> first | rfl | omega | trivial
 
+/-! ### the final pass over the pair counts -/
+
+def entry2 (m : List (List Int)) (i j : Nat) : Int := (m.getD i []).getD j 0
+
+theorem entry2?_eq {n : Nat} {m : List (List Int)} (h : T2Shape n m) {i j : Nat} (hi : i < n) (hj : j < n) :
+    entry2? m i j = some (entry2 m i j) := by
+  obtain ⟨h1, h2⟩ := h
+  have hi' : i < m.length := by omega
+  have hr := h2 _ (List.getElem_mem hi')
+  have hj' : j < (m[i]).length := by omega
+  simp [entry2?, entry2, List.getD_eq_getElem?_getD, List.getElem?_eq_getElem hi',
+    List.getElem?_eq_getElem hj']
+
+theorem pairRow_eq (gpc : Int) {n : Nat} {m : List (List Int)} (h : T2Shape n m) {i : Nat} (hi : i < n)
+    (js : List Nat) (hjs : ∀ j ∈ js, j < n) :
+    pairRow gpc m i js =
+      some ((js.map fun j => (pairTerm gpc (entry2 m i j) (entry2 m j i)).1).sum,
+            (js.map fun j => (pairTerm gpc (entry2 m i j) (entry2 m j i)).2).sum) := by
+  induction js with
+  | nil => simp [pairRow]
+  | cons j js ih =>
+    have hj := hjs j (by simp)
+    simp [pairRow, entry2?_eq h hi hj, entry2?_eq h hj hi, ih (fun j' hj' => hjs j' (by simp [hj']))]
+
+theorem pairPass_eq (gpc : Int) {n : Nat} {m : List (List Int)} (h : T2Shape n m)
+    (is : List Nat) (his : ∀ i ∈ is, i < n) :
+    pairPass gpc m is =
+      some ((is.map fun i => rsum i fun j => (pairTerm gpc (entry2 m i j) (entry2 m j i)).1).sum,
+            (is.map fun i => rsum i fun j => (pairTerm gpc (entry2 m i j) (entry2 m j i)).2).sum) := by
+  induction is with
+  | nil => simp [pairPass]
+  | cons i is ih =>
+    have hi := his i (by simp)
+    have hr := pairRow_eq gpc h hi (List.range i) (fun j hj => by simp at hj; omega)
+    simp [pairPass, hr, ih (fun i' hi' => his i' (by simp [hi'])), rsum]
+
+theorem entry2_bump2 {n : Nat} {m : List (List Int)} (h : T2Shape n m) {i j : Nat} (hi : i < n) (hj : j < n)
+    (i' j' : Nat) :
+    entry2 (bump2 m i j) i' j' = entry2 m i' j' + (if i = i' ∧ j = j' then 1 else 0) := by
+  obtain ⟨h1, h2⟩ := h
+  have hi' : i < m.length := by omega
+  have hr := h2 _ (List.getElem_mem hi')
+  have hj' : j < (m[i]).length := by omega
+  have hgi : m.getD i [] = m[i] := by simp [List.getD_eq_getElem?_getD, hi']
+  have hgj : (m[i]).getD j 0 = (m[i])[j] := by simp [List.getD_eq_getElem?_getD, hj']
+  unfold entry2 bump2
+  rw [hgi, hgj]
+  by_cases e1 : i = i'
+  · subst e1
+    have : (m.set i ((m[i]).set j ((m[i])[j] + 1))).getD i [] = (m[i]).set j ((m[i])[j] + 1) := by
+      simp [List.getD_eq_getElem?_getD, hi']
+    rw [this, hgi]
+    by_cases e2 : j = j'
+    · subst e2; simp [List.getD_eq_getElem?_getD, hj']
+    · simp [List.getD_eq_getElem?_getD, e2]
+  · have : (m.set i ((m[i]).set j ((m[i])[j] + 1))).getD i' [] = m.getD i' [] := by
+      simp [List.getD_eq_getElem?_getD, e1]
+    rw [this]; simp [e1]
+
+theorem entry2_colT2 {n : Nat} {t : Nat} (ht : t < n) (vs : List Int)
+    (hv : ∀ v ∈ vs, -(n : Int) ≤ v ∧ v ≤ n) {j : Nat} (_hj : j < n) (i : Nat) :
+    ∀ (m : List (List Int)), T2Shape n m →
+    entry2 (colT2 m t vs) i j = entry2 m i j + (if i = t then (vs.count ((j : Int) + 1) : Int) else 0) := by
+  induction vs with
+  | nil => intro m _; simp [colT2]
+  | cons v vs ih =>
+    intro m hm
+    have hv0 := hv v (by simp)
+    have ih' := ih (fun w hw => hv w (by simp [hw]))
+    simp only [colT2]
+    have hshape : T2Shape n (dayT2 m t v) := by
+      unfold dayT2; split
+      · exact bump2_shape hm ht _
+      · exact hm
+    rw [ih' _ hshape, List.count_cons]
+    unfold dayT2
+    by_cases hp : v > 0
+    · have ho : opp v < n := opp_lt (by omega) hv0.1 hv0.2
+      simp only [hp, if_true, entry2_bump2 hm ht ho]
+      by_cases e1 : i = t
+      · subst e1
+        by_cases e2 : v = (j : Int) + 1
+        · have : opp v = j := by unfold opp; omega
+          subst e2
+          simp [this]; omega
+        · have : opp v ≠ j := by unfold opp; omega
+          simp [this, e2]
+      · have : ¬ t = i := fun h => e1 h.symm
+        simp [e1, this]
+    · have : v ≠ (j : Int) + 1 := by omega
+      simp [hp, this]
+
+theorem entry2_teamsT2 {n : Nat} {p : Plan} (hs : Shape n p) {M0 : List (List Int)} (h2 : T2Shape n M0)
+    {i j : Nat} (hj : j < n) (k : Nat) (hk : k ≤ n) :
+    entry2 (teamsT2 p k M0) i j = entry2 M0 i j + (if i < k then (homeGames p i j : Int) else 0) := by
+  induction k with
+  | zero => simp [teamsT2]
+  | succ k ih =>
+    have hsh : T2Shape n (teamsT2 p k M0) := by
+      have := (teamsClosed_inv ⟨0,0,0,0,0,0⟩ p (List.replicate (tri n) 0) M0 (by simp) h2 k (by omega)).2
+      simpa [teamsClosed] using this
+    have := entry2_colT2 (show k < n by omega) (col p k) (col_mem_range hs k) hj i _ hsh
+    unfold teamsT2 at this ⊢
+    rw [List.range_succ, List.foldl_append]
+    simp only [List.foldl_cons, List.foldl_nil]
+    rw [this]
+    have ih' := ih (by omega)
+    unfold teamsT2 at ih'
+    rw [ih']
+    unfold homeGames
+    by_cases e : i = k
+    · subst e; simp
+    · by_cases e2 : i < k
+      · have : i < k + 1 := by omega
+        simp [e, e2, this]
+      · have : ¬ i < k + 1 := by omega
+        simp [e, e2, this]
+
+/-- the result of the kernel on a plan of the space, in closed form -/
+def pureErrs (n rounds : Nat) (c : Cfg) (p : Plan) : Errs :=
+  { bye := rsum n (fun t => count0 (col p t)),
+    incons := rsum n (fun t => colIncons p t 0 (col p t)),
+    streakMax := rsum n (fun t => (colStreak c Streak.init (col p t)).2.1),
+    streakMin := rsum n (fun t => (colStreak c Streak.init (col p t)).2.2
+                                  + closeStreak c (colStreak c Streak.init (col p t)).1),
+    sepMin := (tableFold c (List.replicate (tri n) (-1)) (allEvents p n)).2.1,
+    sepMax := (tableFold c (List.replicate (tri n) (-1)) (allEvents p n)).2.2,
+    pairCount := rsum n (fun i => rsum i (fun j =>
+      (pairTerm rounds (homeGames p i j) (homeGames p j i)).1)),
+    balance := rsum n (fun i => rsum i (fun j =>
+      (pairTerm rounds (homeGames p i j) (homeGames p j i)).2)) }
+
+theorem rsum_congr {k : Nat} {f g : Nat → Int} (h : ∀ i < k, f i = g i) : rsum k f = rsum k g := by
+  unfold rsum
+  congr 1
+  apply List.map_congr_left
+  intro i hi
+  exact h i (by simpa using hi)
+
+theorem countErrs?_eq (n rounds : Nat) (c : Cfg) (p : Plan) (t1 : List Int) (t2 : List (List Int))
+    (hn : 2 ≤ n) (hp : InSpace n rounds p) (hsc : ScratchOk n t1 t2) :
+    countErrs? n p c t1 t2 = some (pureErrs n rounds c p) := by
+  obtain ⟨hlen, hrows⟩ := hp
+  have hs : Shape n p := hrows
+  obtain ⟨s1, s2, s3⟩ := hsc
+  have hT0 : t1.map (fun _ => (-1 : Int)) = List.replicate (tri n) (-1) := by
+    rw [List.map_const', s1]; rfl
+  have hM0 : T2Shape n (t2.map (fun r => r.map (fun _ => (0 : Int)))) := by
+    refine ⟨by simp [s2], ?_⟩
+    intro r hr
+    simp only [List.mem_map] at hr
+    obtain ⟨r0, hr0, rfl⟩ := hr
+    simp [s3 r0 hr0]
+  have hM0z : ∀ i j, entry2 (t2.map (fun r => r.map (fun _ => (0 : Int)))) i j = 0 := by
+    intro i j
+    unfold entry2
+    simp only [List.getD_eq_getElem?_getD, List.getElem?_map]
+    cases t2[i]? with
+    | none => simp
+    | some r => cases h : r[j]? <;> simp [h]
+  unfold countErrs?
+  simp only [hT0]
+  rw [foldTeams_eq c hs _ _ (by simp) hM0 n (Nat.le_refl n)]
+  have hn1 : n ≠ 1 := by omega
+  have hgpc : p.length / (n - 1) = rounds := by
+    rw [hlen]; exact Nat.mul_div_cancel_left _ (by omega)
+  have hsh := (teamsClosed_inv c p (List.replicate (tri n) (-1)) _ (by simp) hM0 n (Nat.le_refl n)).2
+  simp only [hn1, if_false, hgpc]
+  rw [pairPass_eq _ hsh (List.range n) (fun i hi => by simpa using hi)]
+  simp only [teamsClosed, pureErrs, Option.some.injEq, Errs.mk.injEq, true_and]
+  refine ⟨?_, ?_⟩
+  · show rsum n _ = rsum n _
+    apply rsum_congr; intro i hi; apply rsum_congr; intro j hj
+    rw [entry2_teamsT2 hs hM0 (show j < n by omega) n (Nat.le_refl n),
+        entry2_teamsT2 hs hM0 (show i < n by omega) n (Nat.le_refl n), hM0z, hM0z]
+    simp [hi, show j < n by omega]
+  · show rsum n _ = rsum n _
+    apply rsum_congr; intro i hi; apply rsum_congr; intro j hj
+    rw [entry2_teamsT2 hs hM0 (show j < n by omega) n (Nat.le_refl n),
+        entry2_teamsT2 hs hM0 (show i < n by omega) n (Nat.le_refl n), hM0z, hM0z]
+    simp [hi, show j < n by omega]
+
+/-! ### non-negativity of every component, for every input on which the kernel returns -/
+
+def Errs.NonNeg (e : Errs) : Prop :=
+  0 ≤ e.bye ∧ 0 ≤ e.incons ∧ 0 ≤ e.streakMax ∧ 0 ≤ e.streakMin ∧ 0 ≤ e.sepMin ∧ 0 ≤ e.sepMax ∧
+  0 ≤ e.pairCount ∧ 0 ≤ e.balance
+
+theorem short_nonneg (m l : Int) : 0 ≤ short m l := by unfold short; split <;> omega
+
+theorem byeStreak_nonneg (c : Cfg) (s : Streak) : 0 ≤ (byeStreak c s).2 := by
+  unfold byeStreak; split
+  · exact short_nonneg _ _
+  · split
+    · exact short_nonneg _ _
+    · simp
+
+theorem homeStreak_nonneg (c : Cfg) (s : Streak) :
+    0 ≤ (homeStreak c s).2.1 ∧ 0 ≤ (homeStreak c s).2.2 := by
+  unfold homeStreak; split
+  · constructor
+    · simp only []; split <;> omega
+    · simp
+  · split
+    · exact ⟨by simp, short_nonneg _ _⟩
+    · simp
+
+theorem awayStreak_nonneg (c : Cfg) (s : Streak) :
+    0 ≤ (awayStreak c s).2.1 ∧ 0 ≤ (awayStreak c s).2.2 := by
+  unfold awayStreak; split
+  · constructor
+    · simp only []; split <;> omega
+    · simp
+  · split
+    · exact ⟨by simp, short_nonneg _ _⟩
+    · simp
+
+theorem closeStreak_nonneg (c : Cfg) (s : Streak) : 0 ≤ closeStreak c s := by
+  unfold closeStreak; split
+  · exact short_nonneg _ _
+  · split
+    · exact short_nonneg _ _
+    · simp
+
+theorem touch_nonneg (c : Cfg) (last : Int) (d : Nat) :
+    0 ≤ (touch c last d).2.1 ∧ 0 ≤ (touch c last d).2.2 := by
+  by_cases h1 : last ≥ 0 <;> by_cases h2 : last < d <;> by_cases h3 : (d : Int) - last - 1 < c.smin <;>
+    by_cases h4 : (d : Int) - last - 1 > c.smax <;> simp [touch, h1, h2, h3, h4] <;> omega
+
+theorem sepStep_nonneg {c : Cfg} {T : List Int} {k d : Nat} {q : List Int × Int × Int}
+    (h : sepStep c T k d = some q) : 0 ≤ q.2.1 ∧ 0 ≤ q.2.2 := by
+  unfold sepStep at h
+  split at h
+  · simp at h
+  · simp only [Option.some.injEq] at h; subst h; exact touch_nonneg _ _ _
+
+theorem dayStep_nonneg {c : Cfg} {p : Plan} {t : Nat} {a a' : Acc} {d : Nat} {v : Int}
+    (h : dayStep c p t a d v = some a') (ha : a.e.NonNeg) : a'.e.NonNeg := by
+  have hb := byeStreak_nonneg c a.s
+  have hh := homeStreak_nonneg c a.s
+  have haw := awayStreak_nonneg c a.s
+  obtain ⟨a1, a2, a3, a4, a5, a6, a7, a8⟩ := ha
+  unfold dayStep at h
+  by_cases h0 : v = 0
+  · rw [if_pos h0] at h
+    simp only [Option.some.injEq] at h; subst h
+    refine ⟨?_, ?_, ?_, ?_, ?_, ?_, ?_, ?_⟩ <;> simp only [] <;> omega
+  · rw [if_neg h0] at h
+    by_cases hp : v > 0
+    · rw [if_pos hp] at h
+      simp only [] at h
+      cases he : entry? p d (v - 1).toNat with
+      | none => rw [he] at h; cases h
+      | some other =>
+        rw [he] at h; simp only [] at h
+        cases hi : incr2? a.t2 t (v - 1).toNat with
+        | none => rw [hi] at h; cases h
+        | some t2' =>
+          rw [hi] at h; simp only [] at h
+          by_cases hto : t = (v - 1).toNat
+          · rw [if_pos hto] at h
+            simp only [Option.some.injEq] at h; subst h
+            refine ⟨?_, ?_, ?_, ?_, ?_, ?_, ?_, ?_⟩ <;> simp only [] <;> (try split) <;> omega
+          · rw [if_neg hto] at h
+            cases hq : sepStep c a.t1 (pairIdx t (v - 1).toNat) d with
+            | none => rw [hq] at h; cases h
+            | some q =>
+              rw [hq] at h; simp only [] at h
+              have hq' := sepStep_nonneg hq
+              simp only [Option.some.injEq] at h; subst h
+              refine ⟨?_, ?_, ?_, ?_, ?_, ?_, ?_, ?_⟩ <;> simp only [] <;> (try split) <;> omega
+    · rw [if_neg hp] at h
+      simp only [] at h
+      cases he : entry? p d (-v - 1).toNat with
+      | none => rw [he] at h; cases h
+      | some other =>
+        rw [he] at h; simp only [] at h
+        by_cases hto : t = (-v - 1).toNat
+        · rw [if_pos hto] at h
+          simp only [Option.some.injEq] at h; subst h
+          refine ⟨?_, ?_, ?_, ?_, ?_, ?_, ?_, ?_⟩ <;> simp only [] <;> (try split) <;> omega
+        · rw [if_neg hto] at h
+          cases hq : sepStep c a.t1 (pairIdx t (-v - 1).toNat) d with
+          | none => rw [hq] at h; cases h
+          | some q =>
+            rw [hq] at h; simp only [] at h
+            have hq' := sepStep_nonneg hq
+            simp only [Option.some.injEq] at h; subst h
+            refine ⟨?_, ?_, ?_, ?_, ?_, ?_, ?_, ?_⟩ <;> simp only [] <;> (try split) <;> omega
+
+theorem foldDays_nonneg {c : Cfg} {p : Plan} {t : Nat} (vs : List Int) :
+    ∀ {a a' : Acc} {d : Nat}, foldDays c p t a d vs = some a' → a.e.NonNeg → a'.e.NonNeg := by
+  induction vs with
+  | nil => intro a a' d h ha; simp [foldDays] at h; subst h; exact ha
+  | cons v vs ih =>
+    intro a a' d h ha
+    simp only [foldDays] at h
+    split at h
+    · simp at h
+    · rename_i a1 h1
+      exact ih h (dayStep_nonneg h1 ha)
+
+theorem teamStep_nonneg {c : Cfg} {p : Plan} {g g' : G} {t : Nat}
+    (h : teamStep c p g t = some g') (hg : g.e.NonNeg) : g'.e.NonNeg := by
+  unfold teamStep at h
+  split at h
+  · simp at h
+  · split at h
+    · simp at h
+    · rename_i a ha
+      simp only [Option.some.injEq] at h; subst h
+      have := foldDays_nonneg _ ha hg
+      obtain ⟨a1, a2, a3, a4, a5, a6, a7, a8⟩ := this
+      have hc := closeStreak_nonneg c a.s
+      refine ⟨?_, ?_, ?_, ?_, ?_, ?_, ?_, ?_⟩ <;> simp only [] <;> omega
+
+theorem foldTeams_nonneg {c : Cfg} {p : Plan} (ts : List Nat) :
+    ∀ {g g' : G}, foldTeams c p g ts = some g' → g.e.NonNeg → g'.e.NonNeg := by
+  induction ts with
+  | nil => intro g g' h hg; simp [foldTeams] at h; subst h; exact hg
+  | cons t ts ih =>
+    intro g g' h hg
+    simp only [foldTeams] at h
+    split at h
+    · simp at h
+    · rename_i g1 h1
+      exact ih h (teamStep_nonneg h1 hg)
+
+theorem pairTerm_nonneg (gpc ij ji : Int) : 0 ≤ (pairTerm gpc ij ji).1 ∧ 0 ≤ (pairTerm gpc ij ji).2 := by
+  unfold pairTerm
+  constructor
+  · simp only []; omega
+  · simp only []; split <;> omega
+
+theorem pairRow_nonneg {gpc : Int} {m : List (List Int)} {i : Nat} (js : List Nat) :
+    ∀ {r : Int × Int}, pairRow gpc m i js = some r → 0 ≤ r.1 ∧ 0 ≤ r.2 := by
+  induction js with
+  | nil => intro r h; simp [pairRow] at h; subst h; simp
+  | cons j js ih =>
+    intro r h
+    simp only [pairRow] at h
+    cases h1 : entry2? m i j with
+    | none => simp [h1] at h
+    | some ij =>
+      cases h2 : entry2? m j i with
+      | none => simp [h1, h2] at h
+      | some ji =>
+        simp only [h1, h2] at h
+        cases h3 : pairRow gpc m i js with
+        | none => simp [h3] at h
+        | some r' =>
+          simp only [h3, Option.some.injEq] at h; subst h
+          have := ih h3
+          have := pairTerm_nonneg gpc ij ji
+          simp only []; omega
+
+theorem pairPass_nonneg {gpc : Int} {m : List (List Int)} (is : List Nat) :
+    ∀ {r : Int × Int}, pairPass gpc m is = some r → 0 ≤ r.1 ∧ 0 ≤ r.2 := by
+  induction is with
+  | nil => intro r h; simp [pairPass] at h; subst h; simp
+  | cons i is ih =>
+    intro r h
+    simp only [pairPass] at h
+    cases h1 : pairRow gpc m i (List.range i) with
+    | none => simp [h1] at h
+    | some r1 =>
+      simp only [h1] at h
+      cases h2 : pairPass gpc m is with
+      | none => simp [h2] at h
+      | some r2 =>
+        simp only [h2, Option.some.injEq] at h; subst h
+        have := ih h2
+        have := pairRow_nonneg _ h1
+        simp only []; omega
+
+theorem countErrs?_nonneg {n : Nat} {p : Plan} {c : Cfg} {t1 : List Int} {t2 : List (List Int)} {e : Errs}
+    (h : countErrs? n p c t1 t2 = some e) : e.NonNeg := by
+  unfold countErrs? at h
+  simp only [] at h
+  split at h
+  · simp at h
+  · rename_i g hg
+    have hg' := foldTeams_nonneg _ hg (by simp [Errs.NonNeg])
+    split at h
+    · simp at h
+    · split at h
+      · simp at h
+      · rename_i r hr
+        simp only [Option.some.injEq] at h; subst h
+        have := pairPass_nonneg _ hr
+        obtain ⟨a1, a2, a3, a4, a5, a6, a7, a8⟩ := hg'
+        exact ⟨a1, a2, a3, a4, a5, a6, this.1, this.2⟩
+
+theorem scratch_fill (t1 t1' : List Int) (t2 t2' : List (List Int)) (h1 : t1.length = t1'.length)
+    (h2 : t2.map List.length = t2'.map List.length) :
+    t1.map (fun _ => (-1 : Int)) = t1'.map (fun _ => (-1 : Int)) ∧
+    t2.map (fun r => r.map (fun _ => (0 : Int))) = t2'.map (fun r => r.map (fun _ => (0 : Int))) := by
+  constructor
+  · rw [List.map_const', List.map_const', h1]
+  · have : ∀ (m : List (List Int)), m.map (fun r => r.map (fun _ => (0 : Int)))
+        = (m.map List.length).map (fun l => List.replicate l (0 : Int)) := by
+      intro m; simp [List.map_map, Function.comp_def, List.map_const']
+    rw [this t2, this t2', h2]
+
+/-! ## C. closed forms against the specification -/
+
+theorem rsum_nonneg {k : Nat} {f : Nat → Int} (h : ∀ i < k, 0 ≤ f i) : 0 ≤ rsum k f := by
+  induction k with
+  | zero => simp [rsum_zero]
+  | succ k ih =>
+    rw [rsum_succ]
+    have := ih (fun i hi => h i (by omega))
+    have := h k (by omega)
+    omega
+
+theorem rsum_eq_zero_iff {k : Nat} {f : Nat → Int} (h : ∀ i < k, 0 ≤ f i) :
+    rsum k f = 0 ↔ ∀ i < k, f i = 0 := by
+  induction k with
+  | zero => simp [rsum_zero]
+  | succ k ih =>
+    rw [rsum_succ]
+    have h1 := rsum_nonneg (k := k) (f := f) (fun i hi => h i (by omega))
+    have h2 := h k (by omega)
+    have ih' := ih (fun i hi => h i (by omega))
+    constructor
+    · intro hz i hi
+      have hk : rsum k f = 0 := by omega
+      by_cases e : i = k
+      · subst e; omega
+      · exact ih'.mp hk i (by omega)
+    · intro hz
+      have := ih'.mpr (fun i hi => hz i (by omega))
+      have := hz k (by omega)
+      omega
+
+theorem rsum_le {k : Nat} {f g : Nat → Int} (h : ∀ i < k, f i ≤ g i) : rsum k f ≤ rsum k g := by
+  induction k with
+  | zero => simp [rsum_zero]
+  | succ k ih =>
+    rw [rsum_succ, rsum_succ]
+    have := ih (fun i hi => h i (by omega))
+    have := h k (by omega)
+    omega
+
+theorem rsum_add (k : Nat) (f g : Nat → Int) : rsum k (fun i => f i + g i) = rsum k f + rsum k g := by
+  induction k with
+  | zero => simp [rsum_zero]
+  | succ k ih => simp only [rsum_succ, ih]; omega
+
+theorem rsum_const_zero (k : Nat) : rsum k (fun _ => 0) = 0 := by
+  induction k with
+  | zero => simp [rsum_zero]
+  | succ k ih => simp only [rsum_succ, ih]; omega
+
+/-! ### C1 byes -/
+
+theorem count0_eq (vs : List Int) : count0 vs = (vs.count 0 : Int) := by
+  induction vs with
+  | nil => simp [count0]
+  | cons v vs ih =>
+    simp only [count0, ih, List.count_cons]
+    by_cases h : v = 0
+    · subst h; simp; omega
+    · simp [h]
+
+theorem count0_nonneg (vs : List Int) : 0 ≤ count0 vs := by rw [count0_eq]; omega
+
+theorem count0_eq_zero (vs : List Int) : count0 vs = 0 ↔ ∀ v ∈ vs, v ≠ 0 := by
+  induction vs with
+  | nil => simp [count0]
+  | cons v vs ih =>
+    have := count0_nonneg vs
+    simp only [count0, List.mem_cons, forall_eq_or_imp]
+    by_cases h : v = 0
+    · simp [h]; omega
+    · simp [h, ih]
+
+theorem mem_col {p : Plan} {t : Nat} {v : Int} : v ∈ col p t ↔ ∃ d, d < p.length ∧ v = cell p d t := by
+  constructor
+  · intro hv
+    obtain ⟨d, hd, rfl⟩ := List.getElem_of_mem hv
+    refine ⟨d, by simpa [col_length] using hd, ?_⟩
+    have h1 := col_getD p t d
+    rw [List.getD_eq_getElem?_getD, List.getElem?_eq_getElem hd] at h1
+    simpa using h1
+  · rintro ⟨d, hd, rfl⟩
+    have hd' : d < (col p t).length := by simpa [col_length] using hd
+    have h1 := col_getD p t d
+    rw [List.getD_eq_getElem?_getD, List.getElem?_eq_getElem hd'] at h1
+    simp at h1
+    rw [← h1]
+    exact List.getElem_mem hd'
+
+theorem bye_zero_iff (n : Nat) (p : Plan) :
+    rsum n (fun t => count0 (col p t)) = 0 ↔ NoBye n p := by
+  rw [rsum_eq_zero_iff (fun t _ => count0_nonneg _)]
+  unfold NoBye
+  constructor
+  · intro h d hd t ht
+    exact (count0_eq_zero _).mp (h t ht) _ (mem_col.mpr ⟨d, hd, rfl⟩)
+  · intro h t ht
+    rw [count0_eq_zero]
+    intro v hv
+    obtain ⟨d, hd, rfl⟩ := mem_col.mp hv
+    exact h d hd t ht
+
+/-! ### C2 mutual consistency -/
+
+theorem inconsAt_nonneg (p : Plan) (t d : Nat) (v : Int) : 0 ≤ inconsAt p t d v := by
+  unfold inconsAt; repeat' split
+  all_goals omega
+
+theorem inconsAt_eq_zero (p : Plan) (t d : Nat) (v : Int) :
+    inconsAt p t d v = 0 ↔ (v > 0 → cell p d (opp v) = -((t : Int) + 1)) ∧
+                            (v < 0 → cell p d (opp v) = (t : Int) + 1) := by
+  unfold inconsAt
+  by_cases h0 : v = 0
+  · subst h0; simp
+  · by_cases hp : v > 0
+    · have : ¬ v < 0 := by omega
+      simp [h0, hp, this]
+    · have hn : v < 0 := by omega
+      simp [h0, hp, hn]
+
+theorem colIncons_nonneg (p : Plan) (t : Nat) (vs : List Int) : ∀ d, 0 ≤ colIncons p t d vs := by
+  induction vs with
+  | nil => intro d; simp [colIncons]
+  | cons v vs ih => intro d; have := ih (d + 1); have := inconsAt_nonneg p t d v; simp only [colIncons]; omega
+
+theorem colIncons_eq_zero (p : Plan) (t : Nat) (vs : List Int) : ∀ d,
+    colIncons p t d vs = 0 ↔ ∀ i, i < vs.length → inconsAt p t (d + i) (vs.getD i 0) = 0 := by
+  induction vs with
+  | nil => intro d; simp [colIncons]
+  | cons v vs ih =>
+    intro d
+    have h1 := colIncons_nonneg p t vs (d + 1)
+    have h2 := inconsAt_nonneg p t d v
+    simp only [colIncons]
+    constructor
+    · intro hz i hi
+      cases i with
+      | zero => simp; omega
+      | succ i =>
+        have := (ih (d + 1)).mp (by omega) i (by simpa using hi)
+        simpa [Nat.add_assoc, Nat.add_comm 1 i] using this
+    · intro hz
+      have e0 := hz 0 (by simp)
+      simp at e0
+      have : colIncons p t (d + 1) vs = 0 := by
+        rw [ih (d + 1)]
+        intro i hi
+        have := hz (i + 1) (by simpa using hi)
+        simpa [Nat.add_assoc, Nat.add_comm 1 i] using this
+      omega
+
+theorem incons_zero_iff (n : Nat) (p : Plan) :
+    rsum n (fun t => colIncons p t 0 (col p t)) = 0 ↔ Consistent n p := by
+  rw [rsum_eq_zero_iff (fun t _ => colIncons_nonneg _ _ _ _)]
+  unfold Consistent
+  constructor
+  · intro h d hd t ht
+    have := (colIncons_eq_zero p t (col p t) 0).mp (h t ht) d (by simpa [col_length] using hd)
+    rw [col_getD, Nat.zero_add] at this
+    exact (inconsAt_eq_zero _ _ _ _).mp this
+  · intro h t ht
+    rw [colIncons_eq_zero]
+    intro d hd
+    rw [col_getD, Nat.zero_add]
+    exact (inconsAt_eq_zero _ _ _ _).mpr (h d (by simpa [col_length] using hd) t ht)
+
+/-! ### C3 the streak machine counts exactly the documented streak violations -/
+
+/-- abstract state of the machine: kind of the open streak and its length -/
+def Rep (s : Streak) (σ : Int) (k : Nat) : Prop :=
+  (σ = 1 ∧ s.inHome = true ∧ s.inAway = false ∧ s.homeLen = k) ∨
+  (σ = -1 ∧ s.inAway = true ∧ s.inHome = false ∧ s.awayLen = k) ∨
+  (σ = 0 ∧ s.inHome = false ∧ s.inAway = false)
+
+/-- the part of the "too long" penalty of the open streak that was already charged -/
+def already (c : Cfg) (σ : Int) (k : Nat) : Int :=
+  if σ = 1 then posPart (k - c.hmax) else if σ = -1 then posPart (k - c.amax) else 0
+
+/-- all streak errors of a column scanned from state `s`, including the closing check -/
+def SE (c : Cfg) (s : Streak) (vs : List Int) : Int :=
+  (colStreak c s vs).2.1 + (colStreak c s vs).2.2 + closeStreak c (colStreak c s vs).1
+
+def runSum (c : Cfg) (R : List (Int × Nat)) : Int := (R.map (runPenalty c)).sum
+
+theorem SE_cons (c : Cfg) (s : Streak) (v : Int) (vs : List Int) :
+    SE c s (v :: vs) = (streakStep c s v).2.1 + (streakStep c s v).2.2 + SE c (streakStep c s v).1 vs := by
+  simp only [SE, colStreak]; omega
+
+theorem pushRun_head (σ : Int) (k : Nat) (R : List (Int × Nat)) :
+    ∃ j rest, pushRun σ k R = (σ, j) :: rest := by
+  cases R with
+  | nil => exact ⟨k, [], rfl⟩
+  | cons r rest =>
+    obtain ⟨s', j⟩ := r
+    by_cases h : σ = s'
+    · subst h; exact ⟨j + k, rest, by simp [pushRun]⟩
+    · exact ⟨k, (s', j) :: rest, by simp [pushRun, h]⟩
+
+theorem pushRun_ne {σ σ' : Int} (h : σ ≠ σ') (k j : Nat) (rest : List (Int × Nat)) :
+    pushRun σ k ((σ', j) :: rest) = (σ, k) :: (σ', j) :: rest := by simp [pushRun, h]
+
+theorem pushRun_pushRun (σ : Int) (k : Nat) (R : List (Int × Nat)) :
+    pushRun σ k (pushRun σ 1 R) = pushRun σ (k + 1) R := by
+  cases R with
+  | nil => simp [pushRun]; omega
+  | cons r rest =>
+    obtain ⟨s', j⟩ := r
+    by_cases h : σ = s'
+    · subst h; simp [pushRun]; omega
+    · simp [pushRun, h]; omega
+
+theorem runPenalty_zero (c : Cfg) (k : Nat) : runPenalty c (0, k) = 0 := by simp [runPenalty]
+
+theorem runSum_push_zero (c : Cfg) (k : Nat) (R : List (Int × Nat)) :
+    runSum c (pushRun 0 k R) = runSum c R := by
+  cases R with
+  | nil => simp [pushRun, runSum, runPenalty]
+  | cons r rest =>
+    obtain ⟨s', j⟩ := r
+    by_cases h : (0 : Int) = s'
+    · subst h; simp [pushRun, runSum, runPenalty]
+    · simp [pushRun, h, runSum, runPenalty]
+
+theorem runSum_push_ne (c : Cfg) {σ σ' : Int} (h : σ ≠ σ') (k k' : Nat) (R : List (Int × Nat)) :
+    runSum c (pushRun σ k (pushRun σ' k' R)) = runPenalty c (σ, k) + runSum c (pushRun σ' k' R) := by
+  obtain ⟨j, rest, hr⟩ := pushRun_head σ' k' R
+  rw [hr, pushRun_ne h]
+  simp [runSum]
+
+theorem kind_cases (v : Int) : (v = 0 ∧ kind v = 0) ∨ (v > 0 ∧ kind v = 1) ∨ (v < 0 ∧ kind v = -1) := by
+  unfold kind
+  by_cases h0 : v = 0
+  · left; subst h0; simp
+  · by_cases hp : v > 0
+    · right; left; simp [hp]
+    · right; right; have hn : v < 0 := by omega
+      simp [hp, hn]
+
+theorem streak_runs (c : Cfg) (hh : 1 ≤ c.hmax) (ha : 1 ≤ c.amax) (vs : List Int) :
+    ∀ (s : Streak) (σ : Int) (k : Nat), Rep s σ k →
+      SE c s vs + already c σ k = runSum c (pushRun σ k (runs vs)) := by
+  induction vs with
+  | nil =>
+    intro s σ k hrep
+    rcases hrep with ⟨rfl, h1, h2, h3⟩ | ⟨rfl, h1, h2, h3⟩ | ⟨rfl, h1, h2⟩
+    · simp [SE, colStreak, closeStreak, h1, h2, h3, already, runs, pushRun, runSum, runPenalty, short, posPart]
+    · simp [SE, colStreak, closeStreak, h1, h3, already, runs, pushRun, runSum, runPenalty, short, posPart]
+    · simp [SE, colStreak, closeStreak, h1, h2, already, runs, pushRun, runSum, runPenalty]
+  | cons v vs ih =>
+    intro s σ k hrep
+    rw [SE_cons]
+    simp only [runs]
+    rcases kind_cases v with ⟨hv, hk⟩ | ⟨hv, hk⟩ | ⟨hv, hk⟩
+    · -- a day without a game
+      rw [hk]
+      subst hv
+      rcases hrep with ⟨rfl, h1, h2, h3⟩ | ⟨rfl, h1, h2, h3⟩ | ⟨rfl, h1, h2⟩
+      · have hr : Rep (streakStep c s 0).1 0 0 := by
+          right; right; simp [streakStep, byeStreak, h1, h2]
+        have := ih _ 0 0 hr
+        rw [runSum_push_zero] at this
+        rw [runSum_push_ne c (by decide : (1 : Int) ≠ 0), runSum_push_zero, ← this]
+        simp [streakStep, byeStreak, h1, h2, h3, already, runPenalty, short, posPart]
+        split <;> omega
+      · have hr : Rep (streakStep c s 0).1 0 0 := by
+          right; right; simp [streakStep, byeStreak, h1, h2]
+        have := ih _ 0 0 hr
+        rw [runSum_push_zero] at this
+        rw [runSum_push_ne c (by decide : (-1 : Int) ≠ 0), runSum_push_zero, ← this]
+        simp [streakStep, byeStreak, h1, h2, h3, already, runPenalty, short, posPart]
+        split <;> omega
+      · have hr : Rep (streakStep c s 0).1 0 0 := by
+          right; right; simp [streakStep, byeStreak, h1, h2]
+        have := ih _ 0 0 hr
+        rw [runSum_push_zero] at this
+        rw [runSum_push_zero, runSum_push_zero, ← this]
+        simp [streakStep, byeStreak, h1, h2, already]
+    · -- a home game
+      rw [hk]
+      have h0 : v ≠ 0 := by omega
+      rcases hrep with ⟨rfl, h1, h2, h3⟩ | ⟨rfl, h1, h2, h3⟩ | ⟨rfl, h1, h2⟩
+      · have hr : Rep (streakStep c s v).1 1 (k + 1) := by
+          left; simp [streakStep, homeStreak, h0, hv, h1, h2, h3]
+        have := ih _ 1 (k + 1) hr
+        rw [pushRun_pushRun, ← this]
+        simp [streakStep, homeStreak, h0, hv, h1, h2, h3, already, posPart]
+        split <;> split <;> omega
+      · have hr : Rep (streakStep c s v).1 1 1 := by
+          left; simp [streakStep, homeStreak, h0, hv, h1, h2]
+        have := ih _ 1 1 hr
+        rw [runSum_push_ne c (by decide : (-1 : Int) ≠ 1), ← this]
+        simp [streakStep, homeStreak, h0, hv, h1, h2, h3, already, runPenalty, short, posPart]
+        split <;> split <;> omega
+      · have hr : Rep (streakStep c s v).1 1 1 := by
+          left; simp [streakStep, homeStreak, h0, hv, h1, h2]
+        have := ih _ 1 1 hr
+        rw [runSum_push_ne c (by decide : (0 : Int) ≠ 1), ← this]
+        simp [streakStep, homeStreak, h0, hv, h1, h2, already, runPenalty, posPart]
+        omega
+    · -- an away game
+      rw [hk]
+      have h0 : v ≠ 0 := by omega
+      have hnp : ¬ v > 0 := by omega
+      rcases hrep with ⟨rfl, h1, h2, h3⟩ | ⟨rfl, h1, h2, h3⟩ | ⟨rfl, h1, h2⟩
+      · have hr : Rep (streakStep c s v).1 (-1) 1 := by
+          right; left; simp [streakStep, awayStreak, h0, hnp, h1, h2]
+        have := ih _ (-1) 1 hr
+        rw [runSum_push_ne c (by decide : (1 : Int) ≠ -1), ← this]
+        simp [streakStep, awayStreak, h0, hnp, h1, h2, h3, already, runPenalty, short, posPart]
+        split <;> split <;> omega
+      · have hr : Rep (streakStep c s v).1 (-1) (k + 1) := by
+          right; left; simp [streakStep, awayStreak, h0, hnp, h1, h2, h3]
+        have := ih _ (-1) (k + 1) hr
+        rw [pushRun_pushRun, ← this]
+        simp [streakStep, awayStreak, h0, hnp, h1, h2, h3, already, posPart]
+        split <;> split <;> omega
+      · have hr : Rep (streakStep c s v).1 (-1) 1 := by
+          right; left; simp [streakStep, awayStreak, h0, hnp, h1, h2]
+        have := ih _ (-1) 1 hr
+        rw [runSum_push_ne c (by decide : (0 : Int) ≠ -1), ← this]
+        simp [streakStep, awayStreak, h0, hnp, h1, h2, already, runPenalty, posPart]
+        omega
+
+theorem streakCol_eq (c : Cfg) (hh : 1 ≤ c.hmax) (ha : 1 ≤ c.amax) (vs : List Int) :
+    SE c Streak.init vs = streakCount c vs := by
+  have := streak_runs c hh ha vs Streak.init 0 0 (by right; right; simp [Streak.init])
+  rw [runSum_push_zero] at this
+  simpa [already, streakCount, runSum] using this
+
+theorem posPart_nonneg (x : Int) : 0 ≤ posPart x := by unfold posPart; split <;> omega
+
+theorem posPart_eq_zero (x : Int) : posPart x = 0 ↔ x ≤ 0 := by unfold posPart; split <;> omega
+
+theorem runPenalty_nonneg (c : Cfg) (r : Int × Nat) : 0 ≤ runPenalty c r := by
+  unfold runPenalty
+  have := posPart_nonneg (c.hmin - r.2); have := posPart_nonneg (r.2 - c.hmax)
+  have := posPart_nonneg (c.amin - r.2); have := posPart_nonneg (r.2 - c.amax)
+  repeat' split
+  all_goals omega
+
+theorem runPenalty_eq_zero (c : Cfg) (r : Int × Nat) :
+    runPenalty c r = 0 ↔ (r.1 = 1 → c.hmin ≤ r.2 ∧ (r.2 : Int) ≤ c.hmax) ∧
+                         (r.1 = -1 → c.amin ≤ r.2 ∧ (r.2 : Int) ≤ c.amax) := by
+  obtain ⟨σ, k⟩ := r
+  unfold runPenalty
+  have h1 := posPart_nonneg (c.hmin - k); have h2 := posPart_nonneg (k - c.hmax)
+  have h3 := posPart_nonneg (c.amin - k); have h4 := posPart_nonneg (k - c.amax)
+  have e1 := posPart_eq_zero (c.hmin - k); have e2 := posPart_eq_zero (k - c.hmax)
+  have e3 := posPart_eq_zero (c.amin - k); have e4 := posPart_eq_zero (k - c.amax)
+  by_cases k1 : σ = 1
+  · subst k1
+    simp only [if_true]
+    constructor
+    · intro h; exact ⟨fun _ => by omega, fun hh => by omega⟩
+    · intro h; have := h.1 trivial; omega
+  · by_cases k2 : σ = -1
+    · subst k2
+      simp only [if_true]
+      constructor
+      · intro h; exact ⟨fun hh => by omega, fun _ => by omega⟩
+      · intro h; have := h.2 trivial; omega
+    · simp [k1, k2]
+
+theorem sum_map_eq_zero_iff {α} (l : List α) (f : α → Int) (h : ∀ a ∈ l, 0 ≤ f a) :
+    (l.map f).sum = 0 ↔ ∀ a ∈ l, f a = 0 := by
+  induction l with
+  | nil => simp
+  | cons a t ih =>
+    have h1 := h a (by simp)
+    have h2 := sum_map_nonneg t f (fun b hb => h b (by simp [hb]))
+    have ih' := ih (fun b hb => h b (by simp [hb]))
+    simp only [List.map_cons, List.sum_cons, List.mem_cons, forall_eq_or_imp]
+    constructor
+    · intro hz; exact ⟨by omega, ih'.mp (by omega)⟩
+    · intro hz; have := ih'.mpr hz.2; omega
+
+theorem streakCount_nonneg (c : Cfg) (vs : List Int) : 0 ≤ streakCount c vs :=
+  sum_map_nonneg _ _ (fun r _ => runPenalty_nonneg c r)
+
+theorem streakCount_eq_zero (c : Cfg) (vs : List Int) : streakCount c vs = 0 ↔ StreaksOk c vs := by
+  unfold streakCount StreaksOk
+  rw [sum_map_eq_zero_iff _ _ (fun r _ => runPenalty_nonneg c r)]
+  constructor
+  · intro h r hr; exact (runPenalty_eq_zero c r).mp (h r hr)
+  · intro h r hr; exact (runPenalty_eq_zero c r).mpr (h r hr)
+
+/-! ### C4 the pairing table: decomposition by key -/
+
+/-- what happens to one cell of `temp_1` over the list of days on which it is touched -/
+def cellFold (c : Cfg) : Int → List Nat → Int × Int × Int
+  | last, [] => (last, 0, 0)
+  | last, d :: ds =>
+    ((cellFold c (touch c last d).1 ds).1,
+     (touch c last d).2.1 + (cellFold c (touch c last d).1 ds).2.1,
+     (touch c last d).2.2 + (cellFold c (touch c last d).1 ds).2.2)
+
+/-- the days of the events with key `k` -/
+def daysOf (k : Nat) (es : List (Nat × Nat)) : List Nat := (es.filter (fun e => e.1 = k)).map (·.2)
+
+theorem rsum_update {N : Nat} {F G : Nat → Int} {k0 : Nat} (hk : k0 < N) (a : Int)
+    (h0 : F k0 = a + G k0) (hne : ∀ k, k ≠ k0 → F k = G k) : rsum N F = a + rsum N G := by
+  induction N with
+  | zero => omega
+  | succ N ih =>
+    rw [rsum_succ, rsum_succ]
+    by_cases e : k0 = N
+    · subst e
+      have : rsum k0 F = rsum k0 G := rsum_congr (fun i hi => hne i (by omega))
+      omega
+    · have := ih (by omega)
+      have := hne N (fun h => e h.symm)
+      omega
+
+theorem tableFold_keyed (c : Cfg) (es : List (Nat × Nat)) :
+    ∀ (T : List Int), (∀ e ∈ es, e.1 < T.length) →
+    (tableFold c T es).2.1 = rsum T.length (fun k => (cellFold c (T.getD k (-1)) (daysOf k es)).2.1) ∧
+    (tableFold c T es).2.2 = rsum T.length (fun k => (cellFold c (T.getD k (-1)) (daysOf k es)).2.2) := by
+  induction es with
+  | nil =>
+    intro T _
+    simp [tableFold, daysOf, cellFold, rsum_const_zero]
+  | cons e es ih =>
+    intro T hT
+    obtain ⟨k0, d0⟩ := e
+    have hk0 : k0 < T.length := hT (k0, d0) (by simp)
+    have ih' := ih (T.set k0 (touch c (T.getD k0 (-1)) d0).1)
+      (fun e he => by simpa using hT e (by simp [he]))
+    simp only [List.length_set] at ih'
+    simp only [tableFold]
+    constructor
+    · rw [ih'.1]
+      symm
+      apply rsum_update hk0
+      · simp [daysOf, cellFold, List.getD_eq_getElem?_getD, hk0]
+      · intro k hk
+        have hk' : ¬ k0 = k := fun h => hk h.symm
+        simp [daysOf, hk', List.getD_eq_getElem?_getD]
+    · rw [ih'.2]
+      symm
+      apply rsum_update hk0
+      · simp [daysOf, cellFold, List.getD_eq_getElem?_getD, hk0]
+      · intro k hk
+        have hk' : ¬ k0 = k := fun h => hk h.symm
+        simp [daysOf, hk', List.getD_eq_getElem?_getD]
+
+theorem rsum_add_range (m k : Nat) (F : Nat → Int) :
+    rsum (m + k) F = rsum m F + rsum k (fun b => F (m + b)) := by
+  induction k with
+  | zero => simp [rsum_zero]
+  | succ k ih => rw [← Nat.add_assoc, rsum_succ, rsum_succ, ih]; omega
+
+/-- sum over all table indices = sum over all pairs `b < a < n` -/
+theorem rsum_tri (n : Nat) (F : Nat → Int) :
+    rsum (tri n) F = rsum n (fun a => rsum a (fun b => F (tri a + b))) := by
+  induction n with
+  | zero => simp [tri, rsum_zero]
+  | succ n ih => rw [rsum_succ, ← ih, tri_succ, rsum_add_range]
+
+/-! ### C4 (continued): the events of a pairing are the meeting days of its two teams -/
+
+/-- days (counted from `d`) on which a schedule lists opponent `o` -/
+def md (o : Nat) : Nat → List Int → List Nat
+  | _, [] => []
+  | d, v :: vs => if v.natAbs = o + 1 then d :: md o (d + 1) vs else md o (d + 1) vs
+
+theorem daysOf_append (k : Nat) (l1 l2 : List (Nat × Nat)) :
+    daysOf k (l1 ++ l2) = daysOf k l1 ++ daysOf k l2 := by simp [daysOf]
+
+theorem pairIdx_eq_iff {t o a b : Nat} (hto : t ≠ o) (hab : b < a) :
+    pairIdx t o = tri a + b ↔ (t = a ∧ o = b) ∨ (t = b ∧ o = a) := by
+  rcases Nat.lt_or_gt_of_ne hto with h | h
+  · rw [pairIdx_lt' h]
+    constructor
+    · intro e; have := tri_add_inj h hab e; omega
+    · rintro (⟨rfl, rfl⟩ | ⟨rfl, rfl⟩)
+      · omega
+      · rfl
+  · rw [pairIdx_gt h]
+    constructor
+    · intro e; have := tri_add_inj h hab e; omega
+    · rintro (⟨rfl, rfl⟩ | ⟨rfl, rfl⟩)
+      · rfl
+      · omega
+
+theorem daysOf_dayEvents {a b : Nat} (hab : b < a) (t d : Nat) (v : Int) :
+    daysOf (tri a + b) (dayEvents t d v) =
+      if t = b then (if v.natAbs = a + 1 then [d] else [])
+      else if t = a then (if v.natAbs = b + 1 then [d] else []) else [] := by
+  unfold dayEvents
+  by_cases h0 : v = 0
+  · subst h0; simp [daysOf]
+  · simp only [h0, if_false]
+    by_cases hto : t = opp v
+    · simp only [hto, if_true, daysOf, List.filter_nil, List.map_nil]
+      have e1 : ¬ (opp v = b ∧ v.natAbs = a + 1) := by unfold opp; omega
+      have e2 : ¬ (opp v = a ∧ v.natAbs = b + 1) := by unfold opp; omega
+      by_cases k1 : opp v = b
+      · have : ¬ v.natAbs = a + 1 := fun h => e1 ⟨k1, h⟩
+        simp [k1, this]
+      · by_cases k2 : opp v = a
+        · have : ¬ v.natAbs = b + 1 := fun h => e2 ⟨k2, h⟩
+          have hne : ¬ a = b := by omega
+          simp [k2, this, hne]
+        · simp [k1, k2]
+    · simp only [hto, if_false, daysOf, List.filter_cons, List.filter_nil]
+      have key := pairIdx_eq_iff hto hab
+      have o1 : opp v = a ↔ v.natAbs = a + 1 := by unfold opp; omega
+      have o2 : opp v = b ↔ v.natAbs = b + 1 := by unfold opp; omega
+      by_cases k1 : t = b
+      · subst k1
+        have hne : ¬ t = a := by omega
+        by_cases k3 : v.natAbs = a + 1
+        · have : pairIdx t (opp v) = tri a + t := key.mpr (Or.inr ⟨rfl, o1.mpr k3⟩)
+          simp [this, k3]
+        · have : ¬ pairIdx t (opp v) = tri a + t := by
+            intro h; rcases key.mp h with ⟨h1, _⟩ | ⟨_, h2⟩
+            · exact hne h1
+            · exact k3 (o1.mp h2)
+          simp [this, k3]
+      · by_cases k2 : t = a
+        · subst k2
+          by_cases k3 : v.natAbs = b + 1
+          · have : pairIdx t (opp v) = tri t + b := key.mpr (Or.inl ⟨rfl, o2.mpr k3⟩)
+            simp [this, k3, k1]
+          · have : ¬ pairIdx t (opp v) = tri t + b := by
+              intro h; rcases key.mp h with ⟨_, h2⟩ | ⟨h1, _⟩
+              · exact k3 (o2.mp h2)
+              · exact k1 h1
+            simp [this, k3, k1]
+        · have : ¬ pairIdx t (opp v) = tri a + b := by
+            intro h; rcases key.mp h with ⟨h1, _⟩ | ⟨h1, _⟩
+            · exact k2 h1
+            · exact k1 h1
+          simp [this, k1, k2]
+
+theorem daysOf_colEvents {a b : Nat} (hab : b < a) (t : Nat) (vs : List Int) : ∀ d,
+    daysOf (tri a + b) (colEvents t d vs) =
+      if t = b then md a d vs else if t = a then md b d vs else [] := by
+  induction vs with
+  | nil => intro d; simp [colEvents, daysOf, md]
+  | cons v vs ih =>
+    intro d
+    simp only [colEvents, daysOf_append, daysOf_dayEvents hab, ih (d + 1), md]
+    by_cases k1 : t = b
+    · subst k1; simp only [if_true]; split <;> simp
+    · by_cases k2 : t = a
+      · subst k2; simp only [k1, if_true, if_false]; split <;> simp
+      · simp [k1, k2]
+
+theorem flatMap_two {α} (g : Nat → List α) {a b n : Nat} (hab : b < a) (han : a < n)
+    (hg : ∀ t, t ≠ a → t ≠ b → g t = []) : (List.range n).flatMap g = g b ++ g a := by
+  have key : ∀ m, (List.range m).flatMap g = (if b < m then g b else []) ++ (if a < m then g a else []) := by
+    intro m
+    induction m with
+    | zero => simp
+    | succ m ih =>
+      rw [List.range_succ, List.flatMap_append, ih]
+      simp only [List.flatMap_cons, List.flatMap_nil, List.append_nil]
+      by_cases e1 : m = b
+      · subst e1
+        have h1 : ¬ a < m := by omega
+        have h2 : ¬ a < m + 1 := by omega
+        simp [h1, h2]
+      · by_cases e2 : m = a
+        · subst e2
+          simp [hab, show b < m + 1 by omega]
+        · rw [hg m e2 e1]
+          have h1 : (b < m + 1) = (b < m) := by simp; omega
+          have h2 : (a < m + 1) = (a < m) := by simp; omega
+          simp [h1, h2]
+  rw [key n]
+  simp [show b < n by omega, han]
+
+theorem daysOf_allEvents {a b n : Nat} (hab : b < a) (han : a < n) (p : Plan) :
+    daysOf (tri a + b) (allEvents p n) = md a 0 (col p b) ++ md b 0 (col p a) := by
+  have h1 : daysOf (tri a + b) (allEvents p n) =
+      (List.range n).flatMap (fun t => daysOf (tri a + b) (colEvents t 0 (col p t))) := by
+    simp [daysOf, allEvents, List.filter_flatMap, List.map_flatMap]
+  rw [h1, flatMap_two _ hab han]
+  · have hne : ¬ a = b := by omega
+    simp [daysOf_colEvents hab, hne]
+  · intro t h1 h2
+    simp [daysOf_colEvents hab, h1, h2]
+
+theorem md_eq_filter (o : Nat) (vs : List Int) : ∀ d,
+    md o d vs = ((List.range vs.length).filter (fun i => (vs.getD i 0).natAbs = o + 1)).map (· + d) := by
+  induction vs with
+  | nil => intro d; simp [md]
+  | cons v vs ih =>
+    intro d
+    simp only [md, List.length_cons, List.range_succ_eq_map, List.filter_cons, List.getD_cons_zero,
+      List.filter_map, ih (d + 1)]
+    have hf : ((fun i => decide (((v :: vs).getD i 0).natAbs = o + 1)) ∘ Nat.succ)
+        = (fun i => decide ((vs.getD i 0).natAbs = o + 1)) := by
+      funext i; simp
+    rw [hf]
+    have hm : ∀ (l : List Nat), List.map (fun x => x + d) (List.map Nat.succ l) = List.map (fun x => x + (d + 1)) l := by
+      intro l; simp only [List.map_map]; apply List.map_congr_left; intro i _; simp; omega
+    by_cases h : v.natAbs = o + 1
+    · simp [h, hm]
+    · simp [h, hm]
+
+theorem md_col (p : Plan) (t o : Nat) : md o 0 (col p t) = meetingDays p t o := by
+  rw [md_eq_filter]
+  unfold meetingDays
+  simp only [col_length, Nat.add_zero, List.map_id', col_getD]
+
+theorem meetingDays_sorted (p : Plan) (t o : Nat) : List.Pairwise (· < ·) (meetingDays p t o) := by
+  unfold meetingDays
+  exact List.Pairwise.filter _ List.pairwise_lt_range
+
+theorem allEvents_keys {n : Nat} {p : Plan} (hs : Shape n p) (k : Nat) (hk : k ≤ n) :
+    ∀ e ∈ allEvents p k, e.1 < tri n := by
+  have hcol : ∀ (t : Nat), t < n → ∀ (vs : List Int) (d : Nat), (∀ v ∈ vs, -(n : Int) ≤ v ∧ v ≤ n) →
+      ∀ e ∈ colEvents t d vs, e.1 < tri n := by
+    intro t ht vs
+    induction vs with
+    | nil => intro d _ e he; simp [colEvents] at he
+    | cons v vs ih =>
+      intro d hv e he
+      simp only [colEvents, List.mem_append] at he
+      rcases he with he | he
+      · unfold dayEvents at he
+        by_cases h0 : v = 0
+        · simp [h0] at he
+        · by_cases hto : t = opp v
+          · simp [h0, hto] at he
+          · simp only [h0, hto, if_false, List.mem_singleton] at he
+            subst he
+            have hv0 := hv v (by simp)
+            exact pairIdx_lt ht (opp_lt h0 hv0.1 hv0.2) hto
+      · exact ih (d + 1) (fun w hw => hv w (by simp [hw])) e he
+  intro e he
+  simp only [allEvents, List.mem_flatMap, List.mem_range] at he
+  obtain ⟨t, ht, he⟩ := he
+  exact hcol t (by omega) _ 0 (col_mem_range hs t) e he
+
+/-! ### C4 (continued): one cell over sorted meeting days -/
+
+theorem touch_pen (c : Cfg) (hc : c.smin ≤ c.smax) {last : Int} {d : Nat} (h0 : 0 ≤ last) (h1 : last < d) :
+    (touch c last d).1 = d ∧ (touch c last d).2.1 + (touch c last d).2.2 = gapPenalty c (d - last - 1) := by
+  have g0 : last ≥ 0 := h0
+  by_cases h3 : (d : Int) - last - 1 < c.smin <;> by_cases h4 : (d : Int) - last - 1 > c.smax <;>
+    simp [touch, g0, h1, h3, h4, gapPenalty, posPart] <;> (repeat' split) <;> omega
+
+theorem touch_neg (c : Cfg) {last : Int} (d : Nat) (h0 : last < 0) : touch c last d = ((d : Int), 0, 0) := by
+  have : ¬ last ≥ 0 := by omega
+  simp [touch, this]
+
+theorem touch_noop (c : Cfg) {last : Int} {d : Nat} (h0 : (d : Int) ≤ last) : touch c last d = (last, 0, 0) := by
+  have g0 : last ≥ 0 := by omega
+  have : ¬ last < d := by omega
+  simp [touch, g0, this]
+
+theorem touch_ge (c : Cfg) (last : Int) (d : Nat) : last ≤ (touch c last d).1 := by
+  by_cases h1 : last ≥ 0 <;> by_cases h2 : last < d <;> by_cases h3 : (d : Int) - last - 1 < c.smin <;>
+    by_cases h4 : (d : Int) - last - 1 > c.smax <;> simp [touch, h1, h2, h3, h4] <;> omega
+
+theorem cellFold_ge (c : Cfg) (M : List Nat) : ∀ last, last ≤ (cellFold c last M).1 := by
+  induction M with
+  | nil => intro last; simp [cellFold]
+  | cons m M ih =>
+    intro last
+    simp only [cellFold]
+    have := ih (touch c last m).1
+    have := touch_ge c last m
+    omega
+
+theorem cellFold_append (c : Cfg) (A B : List Nat) : ∀ last,
+    cellFold c last (A ++ B) =
+      ((cellFold c (cellFold c last A).1 B).1,
+       (cellFold c last A).2.1 + (cellFold c (cellFold c last A).1 B).2.1,
+       (cellFold c last A).2.2 + (cellFold c (cellFold c last A).1 B).2.2) := by
+  induction A with
+  | nil => intro last; simp [cellFold]
+  | cons a A ih =>
+    intro last
+    simp only [List.cons_append, cellFold, ih]
+    refine Prod.ext rfl (Prod.ext ?_ ?_) <;> simp <;> omega
+
+theorem cellFold_noop (c : Cfg) (M : List Nat) : ∀ last, (∀ m ∈ M, (m : Int) ≤ last) →
+    cellFold c last M = (last, 0, 0) := by
+  induction M with
+  | nil => intro last _; simp [cellFold]
+  | cons m M ih =>
+    intro last h
+    have h1 := touch_noop c (h m (by simp))
+    simp only [cellFold, h1]
+    rw [ih last (fun m' hm' => h m' (by simp [hm']))]
+    simp
+
+def gapsFrom (last : Int) (M : List Nat) : List Int :=
+  if last ≥ 0 then gaps (last.toNat :: M) else gaps M
+
+theorem cellFold_sorted (c : Cfg) (hc : c.smin ≤ c.smax) (M : List Nat) : ∀ last,
+    List.Pairwise (· < ·) M → (∀ m ∈ M, last < (m : Int)) →
+    (cellFold c last M).2.1 + (cellFold c last M).2.2 = ((gapsFrom last M).map (gapPenalty c)).sum ∧
+    ∀ m ∈ M, (m : Int) ≤ (cellFold c last M).1 := by
+  induction M with
+  | nil => intro last _ _; simp [cellFold, gapsFrom, gaps]
+  | cons m M ih =>
+    intro last hp hl
+    rw [List.pairwise_cons] at hp
+    have hlm := hl m (by simp)
+    have ihm := ih (m : Int) hp.2 (fun m' hm' => by have := hp.1 m' hm'; omega)
+    have hgf : gapsFrom (m : Int) M = gaps (m :: M) := by simp [gapsFrom]
+    rw [hgf] at ihm
+    simp only [cellFold]
+    by_cases h0 : 0 ≤ last
+    · have ht := touch_pen c hc h0 hlm
+      rw [ht.1]
+      refine ⟨?_, ?_⟩
+      · have e : gapsFrom last (m :: M) = ((m : Int) - last - 1) :: gaps (m :: M) := by
+          have : ((last.toNat : Nat) : Int) = last := by omega
+          simp [gapsFrom, h0, gaps, this]
+        rw [e]
+        simp only [List.map_cons, List.sum_cons]
+        omega
+      · intro m' hm'
+        simp only [List.mem_cons] at hm'
+        rcases hm' with rfl | hm'
+        · exact cellFold_ge c M _
+        · exact ihm.2 m' hm'
+    · have ht := touch_neg c m (show last < 0 by omega)
+      rw [ht]
+      refine ⟨?_, ?_⟩
+      · have e : gapsFrom last (m :: M) = gaps (m :: M) := by simp [gapsFrom, h0]
+        rw [e]; simp only []; omega
+      · intro m' hm'
+        simp only [List.mem_cons] at hm'
+        rcases hm' with rfl | hm'
+        · exact cellFold_ge c M _
+        · exact ihm.2 m' hm'
+
+/-- a pairing whose two teams list it on the same (sorted) days: the second team's column
+takes the `continue` branch every time, the first one is charged the gap penalties -/
+theorem cellFold_twice (c : Cfg) (hc : c.smin ≤ c.smax) (M : List Nat) (hp : List.Pairwise (· < ·) M) :
+    (cellFold c (-1) (M ++ M)).2.1 + (cellFold c (-1) (M ++ M)).2.2 = ((gaps M).map (gapPenalty c)).sum := by
+  have h1 := cellFold_sorted c hc M (-1) hp (fun m _ => by omega)
+  have hg : gapsFrom (-1) M = gaps M := by simp [gapsFrom]
+  rw [hg] at h1
+  rw [cellFold_append, cellFold_noop c M _ h1.2]
+  simp only []
+  omega
+
+/-! ### C4 (end): the separation total of a mutually consistent plan -/
+
+theorem meetingDays_symm {n : Nat} {p : Plan} (_hs : Shape n p) (hc : Consistent n p) {a b : Nat}
+    (ha : a < n) (hb : b < n) : meetingDays p a b = meetingDays p b a := by
+  unfold meetingDays
+  apply List.filter_congr
+  intro d hd
+  have hd' : d < p.length := by simpa using hd
+  have key : ∀ x y, x < n → y < n → (cell p d x).natAbs = y + 1 → (cell p d y).natAbs = x + 1 := by
+    intro x y hx hy h
+    have hcx := hc d hd' x hx
+    by_cases hpos : cell p d x > 0
+    · have := hcx.1 hpos
+      have ho : opp (cell p d x) = y := by unfold opp; omega
+      rw [ho] at this; omega
+    · have hneg : cell p d x < 0 := by omega
+      have := hcx.2 hneg
+      have ho : opp (cell p d x) = y := by unfold opp; omega
+      rw [ho] at this; omega
+  have : ((cell p d a).natAbs = b + 1) ↔ ((cell p d b).natAbs = a + 1) :=
+    ⟨key a b ha hb, key b a hb ha⟩
+  simp [this]
+
+theorem sepCount_nonneg (c : Cfg) (p : Plan) (t o : Nat) : 0 ≤ sepCount c p t o := by
+  unfold sepCount
+  apply sum_map_nonneg
+  intro g _
+  unfold gapPenalty
+  have := posPart_nonneg (c.smin - g); have := posPart_nonneg (g - c.smax); omega
+
+theorem sep_total (n rounds : Nat) (c : Cfg) (p : Plan) (hcfg : c.smin ≤ c.smax)
+    (hp : InSpace n rounds p) (hc : Consistent n p) :
+    (pureErrs n rounds c p).sepMin + (pureErrs n rounds c p).sepMax =
+      rsum n (fun a => rsum a (fun b => sepCount c p b a)) := by
+  have hs : Shape n p := hp.2
+  have hk := tableFold_keyed c (allEvents p n) (List.replicate (tri n) (-1))
+    (fun e he => by simpa using allEvents_keys hs n (Nat.le_refl n) e he)
+  simp only [pureErrs, hk.1, hk.2, List.length_replicate]
+  rw [← rsum_add, rsum_tri]
+  apply rsum_congr; intro a ha; apply rsum_congr; intro b hb
+  have hlt : tri a + b < tri n := by
+    have := tri_succ a; have := tri_mono (show a + 1 ≤ n by omega); omega
+  have hget : (List.replicate (tri n) (-1 : Int)).getD (tri a + b) (-1) = -1 := by
+    simp [List.getD_eq_getElem?_getD, hlt]
+  rw [hget, daysOf_allEvents hb ha p, md_col, md_col, meetingDays_symm hs hc ha (show b < n by omega)]
+  exact cellFold_twice c hcfg _ (meetingDays_sorted p b a)
+
+theorem sum_pairs (n : Nat) (f : Nat × Nat → Int) :
+    ((pairs n).map f).sum = rsum n (fun i => rsum i (fun j => f (i, j))) := by
+  induction n with
+  | zero => simp [pairs, rsum_zero]
+  | succ n ih =>
+    have : pairs (n + 1) = pairs n ++ (List.range n).map (fun j => (n, j)) := by
+      simp [pairs, List.range_succ, List.flatMap_append]
+    rw [this, List.map_append, List.sum_append, ih, rsum_succ]
+    simp [rsum, List.map_map, Function.comp_def]
+
+/-! ### C5 pair counts of a mutually consistent plan -/
+
+theorem home_away {n : Nat} {p : Plan} (hc : Consistent n p) {i j : Nat} (hi : i < n) (hj : j < n) :
+    homeGames p j i = awayGames p i j := by
+  unfold homeGames awayGames col
+  rw [List.count_eq_countP, List.count_eq_countP, List.countP_map, List.countP_map]
+  apply List.countP_congr
+  intro row hrow
+  obtain ⟨d, hd, rfl⟩ := List.getElem_of_mem hrow
+  have cellEq : ∀ t, cell p d t = (p[d]).getD t 0 := by
+    intro t; simp [cell, List.getD_eq_getElem?_getD, List.getElem?_eq_getElem hd]
+  simp only [Function.comp, beq_iff_eq, ← cellEq]
+  constructor
+  · intro h
+    have := (hc d hd j hj).1 (by omega)
+    have ho : opp (cell p d j) = i := by unfold opp; omega
+    rw [ho] at this; omega
+  · intro h
+    have := (hc d hd i hi).2 (by omega)
+    have ho : opp (cell p d i) = j := by unfold opp; omega
+    rw [ho] at this; omega
+
+/-- the closed form of the kernel equals the documented count on mutually consistent plans -/
+theorem pureErrs_total_doc (n rounds : Nat) (c : Cfg) (p : Plan) (hh : 1 ≤ c.hmax) (ha : 1 ≤ c.amax)
+    (hcfg : c.smin ≤ c.smax) (hp : InSpace n rounds p) (hc : Consistent n p) :
+    (pureErrs n rounds c p).total = documentedCount n rounds c p := by
+  have hsep := sep_total n rounds c p hcfg hp hc
+  have hinc : (pureErrs n rounds c p).incons = 0 := (incons_zero_iff n p).mpr hc
+  have hbye : (pureErrs n rounds c p).bye
+      = ((List.range n).map (fun t => ((col p t).count 0 : Int))).sum := by
+    simp only [pureErrs]; exact rsum_congr (fun t _ => count0_eq _)
+  have hstreak : (pureErrs n rounds c p).streakMax + (pureErrs n rounds c p).streakMin
+      = ((List.range n).map (fun t => streakCount c (col p t))).sum := by
+    simp only [pureErrs]
+    rw [← rsum_add]
+    apply rsum_congr; intro t _
+    have := streakCol_eq c hh ha (col p t)
+    unfold SE at this; omega
+  have hpc : (pureErrs n rounds c p).pairCount
+      = ((pairs n).map (fun ij =>
+          ((((homeGames p ij.1 ij.2 : Int) + awayGames p ij.1 ij.2) - rounds).natAbs : Int))).sum := by
+    rw [sum_pairs]
+    simp only [pureErrs]
+    apply rsum_congr; intro i hi; apply rsum_congr; intro j hj
+    rw [← home_away hc hi (show j < n by omega)]
+    simp [pairTerm]
+  have hbal : (pureErrs n rounds c p).balance
+      = ((pairs n).map (fun ij =>
+          posPart ((((homeGames p ij.1 ij.2 : Int) - homeGames p ij.2 ij.1).natAbs : Int) - 1))).sum := by
+    rw [sum_pairs]
+    simp only [pureErrs]
+    apply rsum_congr; intro i hi; apply rsum_congr; intro j hj
+    simp only [pairTerm, posPart]
+    split <;> split <;> omega
+  have hsep' : rsum n (fun a => rsum a (fun b => sepCount c p b a))
+      = ((pairs n).map (fun ij => sepCount c p ij.2 ij.1)).sum := by rw [sum_pairs]
+  unfold Errs.total documentedCount
+  rw [← hbye, ← hstreak, ← hsep', ← hsep, ← hpc, ← hbal]
+  omega
+
+theorem pureErrs_nonneg (n rounds : Nat) (c : Cfg) (p : Plan) (hn : 2 ≤ n) (hp : InSpace n rounds p) :
+    (pureErrs n rounds c p).NonNeg := by
+  have := countErrs?_eq n rounds c p (List.replicate (n * (n - 1) / 2) 0)
+    (List.replicate n (List.replicate n 0)) hn hp
+    ⟨by simp, by simp, by intro r hr; rw [List.mem_replicate] at hr; simp [hr.2]⟩
+  exact countErrs?_nonneg this
+
+/-! ### the documented count is zero exactly for feasible schedules -/
+
+theorem doc_rsum (n rounds : Nat) (c : Cfg) (p : Plan) :
+    documentedCount n rounds c p =
+      rsum n (fun t => count0 (col p t)) + rsum n (fun t => streakCount c (col p t))
+      + rsum n (fun i => rsum i (fun j => sepCount c p j i))
+      + rsum n (fun i => rsum i (fun j =>
+          posPart ((((homeGames p i j : Int) - homeGames p j i).natAbs : Int) - 1)))
+      + rsum n (fun i => rsum i (fun j =>
+          ((((homeGames p i j : Int) + awayGames p i j) - rounds).natAbs : Int))) := by
+  unfold documentedCount
+  rw [sum_pairs, sum_pairs, sum_pairs]
+  have : rsum n (fun t => count0 (col p t)) = ((List.range n).map (fun t => ((col p t).count 0 : Int))).sum :=
+    rsum_congr (fun t _ => count0_eq _)
+  rw [this]
+  rfl
+
+theorem gapPenalty_eq_zero (c : Cfg) (g : Int) : gapPenalty c g = 0 ↔ c.smin ≤ g ∧ g ≤ c.smax := by
+  unfold gapPenalty
+  have := posPart_nonneg (c.smin - g); have := posPart_nonneg (g - c.smax)
+  have := posPart_eq_zero (c.smin - g); have := posPart_eq_zero (g - c.smax)
+  omega
+
+theorem sepCount_eq_zero (c : Cfg) (p : Plan) (t o : Nat) : sepCount c p t o = 0 ↔ SeparationOk c p t o := by
+  unfold sepCount SeparationOk
+  rw [sum_map_eq_zero_iff]
+  · constructor
+    · intro h g hg; exact (gapPenalty_eq_zero c g).mp (h g hg)
+    · intro h g hg; exact (gapPenalty_eq_zero c g).mpr (h g hg)
+  · intro g _
+    unfold gapPenalty
+    have := posPart_nonneg (c.smin - g); have := posPart_nonneg (g - c.smax); omega
+
+theorem doc_zero_iff (n rounds : Nat) (c : Cfg) (p : Plan) :
+    documentedCount n rounds c p = 0 ↔
+      NoBye n p ∧ (∀ t < n, StreaksOk c (col p t)) ∧ (∀ i < n, ∀ j < i, SeparationOk c p j i) ∧
+      (∀ i < n, ∀ j < i, ((homeGames p i j : Int) - homeGames p j i).natAbs ≤ 1 ∧
+                         homeGames p i j + awayGames p i j = rounds) := by
+  rw [doc_rsum]
+  have n1 : 0 ≤ rsum n (fun t => count0 (col p t)) := rsum_nonneg (fun t _ => count0_nonneg _)
+  have n2 : 0 ≤ rsum n (fun t => streakCount c (col p t)) := rsum_nonneg (fun t _ => streakCount_nonneg _ _)
+  have n3 : 0 ≤ rsum n (fun i => rsum i (fun j => sepCount c p j i)) :=
+    rsum_nonneg (fun i _ => rsum_nonneg (fun j _ => sepCount_nonneg _ _ _ _))
+  have n4 : 0 ≤ rsum n (fun i => rsum i (fun j =>
+      posPart ((((homeGames p i j : Int) - homeGames p j i).natAbs : Int) - 1))) :=
+    rsum_nonneg (fun i _ => rsum_nonneg (fun j _ => posPart_nonneg _))
+  have n5 : 0 ≤ rsum n (fun i => rsum i (fun j =>
+      ((((homeGames p i j : Int) + awayGames p i j) - rounds).natAbs : Int))) :=
+    rsum_nonneg (fun i _ => rsum_nonneg (fun j _ => by omega))
+  have e1 := bye_zero_iff n p
+  have e2 : rsum n (fun t => streakCount c (col p t)) = 0 ↔ ∀ t < n, StreaksOk c (col p t) := by
+    rw [rsum_eq_zero_iff (fun t _ => streakCount_nonneg _ _)]
+    exact ⟨fun h t ht => (streakCount_eq_zero _ _).mp (h t ht), fun h t ht => (streakCount_eq_zero _ _).mpr (h t ht)⟩
+  have e3 : rsum n (fun i => rsum i (fun j => sepCount c p j i)) = 0 ↔ ∀ i < n, ∀ j < i, SeparationOk c p j i := by
+    rw [rsum_eq_zero_iff (fun i _ => rsum_nonneg (fun j _ => sepCount_nonneg _ _ _ _))]
+    constructor
+    · intro h i hi j hj
+      exact (sepCount_eq_zero _ _ _ _).mp ((rsum_eq_zero_iff (fun j _ => sepCount_nonneg _ _ _ _)).mp (h i hi) j hj)
+    · intro h i hi
+      exact (rsum_eq_zero_iff (fun j _ => sepCount_nonneg _ _ _ _)).mpr
+        (fun j hj => (sepCount_eq_zero _ _ _ _).mpr (h i hi j hj))
+  have e4 : rsum n (fun i => rsum i (fun j =>
+      posPart ((((homeGames p i j : Int) - homeGames p j i).natAbs : Int) - 1))) = 0 ↔
+      ∀ i < n, ∀ j < i, ((homeGames p i j : Int) - homeGames p j i).natAbs ≤ 1 := by
+    rw [rsum_eq_zero_iff (fun i _ => rsum_nonneg (fun j _ => posPart_nonneg _))]
+    constructor
+    · intro h i hi j hj
+      have := (rsum_eq_zero_iff (fun j _ => posPart_nonneg _)).mp (h i hi) j hj
+      rw [posPart_eq_zero] at this; omega
+    · intro h i hi
+      exact (rsum_eq_zero_iff (fun j _ => posPart_nonneg _)).mpr
+        (fun j hj => (posPart_eq_zero _).mpr (by have := h i hi j hj; omega))
+  have e5 : rsum n (fun i => rsum i (fun j =>
+      ((((homeGames p i j : Int) + awayGames p i j) - rounds).natAbs : Int))) = 0 ↔
+      ∀ i < n, ∀ j < i, homeGames p i j + awayGames p i j = rounds := by
+    rw [rsum_eq_zero_iff (fun i _ => rsum_nonneg (fun j _ => by omega))]
+    constructor
+    · intro h i hi j hj
+      have := (rsum_eq_zero_iff (fun j _ => by omega)).mp (h i hi) j hj
+      omega
+    · intro h i hi
+      exact (rsum_eq_zero_iff (fun j _ => by omega)).mpr (fun j hj => by have := h i hi j hj; omega)
+  constructor
+  · intro h
+    refine ⟨e1.mp (by omega), e2.mp (by omega), e3.mp (by omega), ?_⟩
+    intro i hi j hj
+    exact ⟨e4.mp (by omega) i hi j hj, e5.mp (by omega) i hi j hj⟩
+  · rintro ⟨h1, h2, h3, h4⟩
+    have := e1.mpr h1; have := e2.mpr h2; have := e3.mpr h3
+    have := e4.mpr (fun i hi j hj => (h4 i hi j hj).1)
+    have := e5.mpr (fun i hi j hj => (h4 i hi j hj).2)
+    omega
+
+/-- for mutually consistent plans the pair-wise conditions over `j < i` are the symmetric ones -/
+theorem feasible_iff_doc_conditions (n rounds : Nat) (c : Cfg) (p : Plan) (hp : InSpace n rounds p)
+    (hc : Consistent n p) :
+    (NoBye n p ∧ (∀ t < n, StreaksOk c (col p t)) ∧ (∀ i < n, ∀ j < i, SeparationOk c p j i) ∧
+      (∀ i < n, ∀ j < i, ((homeGames p i j : Int) - homeGames p j i).natAbs ≤ 1 ∧
+                         homeGames p i j + awayGames p i j = rounds)) ↔ FeasiblePlan n rounds c p := by
+  have hs : Shape n p := hp.2
+  unfold FeasiblePlan
+  constructor
+  · rintro ⟨h1, h2, h3, h4⟩
+    refine ⟨h1, hc, h2, ?_, ?_⟩
+    · intro t ht o ho hne
+      rcases Nat.lt_or_gt_of_ne hne with h | h
+      · exact h3 o ho t h
+      · unfold SeparationOk
+        rw [meetingDays_symm hs hc ht ho]
+        exact h3 t ht o h
+    · intro t ht o ho hne
+      rcases Nat.lt_or_gt_of_ne hne with h | h
+      · have := h4 o ho t h
+        have e1 := home_away hc ho ht   -- homeGames p t o = awayGames p o t
+        have e2 := home_away hc ht ho   -- homeGames p o t = awayGames p t o
+        omega
+      · have := h4 t ht o h
+        have e2 := home_away hc ht ho
+        omega
+  · rintro ⟨h1, _, h2, h3, h4⟩
+    refine ⟨h1, h2, ?_, ?_⟩
+    · intro i hi j hj
+      exact h3 j (by omega) i hi (by omega)
+    · intro i hi j hj
+      have := h4 i hi j (by omega) (by omega)
+      have e2 := home_away hc hi (show j < n by omega)
+      omega
+
+/-! ## D. the declared upper bound on the class where it holds -/
+
+/-! ### D1 one column: byes + streak violations ≤ number of days -/
+
+def runLen (R : List (Int × Nat)) : Int := (R.map (fun r => (r.2 : Int))).sum
+def zeroLen (R : List (Int × Nat)) : Int := (R.map (fun r => if r.1 = 0 then (r.2 : Int) else 0)).sum
+
+theorem runLen_push (σ : Int) (k : Nat) (R : List (Int × Nat)) : runLen (pushRun σ k R) = k + runLen R := by
+  cases R with
+  | nil => simp [pushRun, runLen]
+  | cons r rest =>
+    obtain ⟨s', j⟩ := r
+    by_cases h : σ = s'
+    · subst h; simp [pushRun, runLen]; omega
+    · simp [pushRun, h, runLen]
+
+theorem zeroLen_push (σ : Int) (k : Nat) (R : List (Int × Nat)) :
+    zeroLen (pushRun σ k R) = (if σ = 0 then (k : Int) else 0) + zeroLen R := by
+  cases R with
+  | nil => simp [pushRun, zeroLen]
+  | cons r rest =>
+    obtain ⟨s', j⟩ := r
+    by_cases h : σ = s'
+    · subst h
+      by_cases h0 : σ = 0
+      · simp [pushRun, zeroLen, h0]; omega
+      · simp [pushRun, zeroLen, h0]
+    · simp [pushRun, h, zeroLen]
+
+theorem runs_len (vs : List Int) : runLen (runs vs) = vs.length := by
+  induction vs with
+  | nil => simp [runs, runLen]
+  | cons v vs ih => simp only [runs, runLen_push, ih, List.length_cons]; omega
+
+theorem runs_zero (vs : List Int) : zeroLen (runs vs) = count0 vs := by
+  induction vs with
+  | nil => simp [runs, zeroLen, count0]
+  | cons v vs ih =>
+    simp only [runs, zeroLen_push, ih, count0]
+    rcases kind_cases v with ⟨hv, hk⟩ | ⟨hv, hk⟩ | ⟨hv, hk⟩
+    · subst hv; simp [kind]
+    · have : v ≠ 0 := by omega
+      simp [hk, this]
+    · have : v ≠ 0 := by omega
+      simp [hk, this]
+
+theorem pushRun_pos {σ : Int} {k : Nat} (hk : 1 ≤ k) {R : List (Int × Nat)} (hR : ∀ r ∈ R, 1 ≤ r.2) :
+    ∀ r ∈ pushRun σ k R, 1 ≤ r.2 := by
+  cases R with
+  | nil => intro r hr; simp [pushRun] at hr; subst hr; exact hk
+  | cons r0 rest =>
+    obtain ⟨s', j⟩ := r0
+    by_cases h : σ = s'
+    · subst h
+      intro r hr
+      simp only [pushRun, if_true, List.mem_cons] at hr
+      rcases hr with rfl | hr
+      · simp; omega
+      · exact hR r (by simp [hr])
+    · intro r hr
+      simp only [pushRun, h, if_false, List.mem_cons] at hr
+      rcases hr with rfl | rfl | hr
+      · exact hk
+      · exact hR _ (by simp)
+      · exact hR r (by simp [hr])
+
+theorem runs_pos (vs : List Int) : ∀ r ∈ runs vs, 1 ≤ r.2 := by
+  induction vs with
+  | nil => simp [runs]
+  | cons v vs ih => simp only [runs]; exact pushRun_pos (Nat.le_refl 1) ih
+
+theorem runs_ne_nil {vs : List Int} (h : vs ≠ []) : runs vs ≠ [] := by
+  cases vs with
+  | nil => exact absurd rfl h
+  | cons v vs =>
+    simp only [runs]
+    obtain ⟨j, rest, hr⟩ := pushRun_head (kind v) 1 (runs vs)
+    rw [hr]; simp
+
+/-- with both streak minima `≤ 1` a block of `k ≥ 1` days costs at most `k - 1`, and a block of days
+without game costs exactly its length in rule-2 errors -/
+theorem runPenalty_le (c : Cfg) (h1 : c.hmin ≤ 1) (h2 : 1 ≤ c.hmax) (h3 : c.amin ≤ 1) (h4 : 1 ≤ c.amax)
+    (r : Int × Nat) (hr : 1 ≤ r.2) : runPenalty c r ≤ r.2 - 1 := by
+  obtain ⟨σ, k⟩ := r
+  simp only [runPenalty, posPart]
+  simp only [] at hr
+  repeat' split
+  all_goals omega
+
+theorem col_bound (c : Cfg) (h1 : c.hmin ≤ 1) (h2 : 1 ≤ c.hmax) (h3 : c.amin ≤ 1) (h4 : 1 ≤ c.amax)
+    (vs : List Int) :
+    count0 vs + streakCount c vs ≤ vs.length ∧ (vs ≠ [] → streakCount c vs ≤ (vs.length : Int) - 1) := by
+  have hpos := runs_pos vs
+  have key : ∀ (R : List (Int × Nat)), (∀ r ∈ R, 1 ≤ r.2) →
+      zeroLen R + runSum c R ≤ runLen R ∧ (R ≠ [] → runSum c R ≤ runLen R - 1) ∧ runSum c R ≤ runLen R := by
+    intro R
+    induction R with
+    | nil => intro _; simp [zeroLen, runSum, runLen]
+    | cons r R ih =>
+      intro hR
+      have hr := hR r (by simp)
+      have ih' := ih (fun x hx => hR x (by simp [hx]))
+      have hp := runPenalty_le c h1 h2 h3 h4 r hr
+      have hz : (if r.1 = 0 then (r.2 : Int) else 0) + runPenalty c r ≤ r.2 := by
+        by_cases h0 : r.1 = 0
+        · have : runPenalty c r = 0 := by
+            obtain ⟨σ, k⟩ := r; simp only [] at h0; subst h0; exact runPenalty_zero c k
+          simp [h0, this]
+        · simp only [h0, if_false]; omega
+      simp only [zeroLen, runSum, runLen, List.map_cons, List.sum_cons] at ih' ⊢
+      refine ⟨by omega, fun _ => by omega, by omega⟩
+  have hk := key (runs vs) hpos
+  rw [runs_len, runs_zero] at hk
+  refine ⟨by simpa [streakCount, runSum] using hk.1, fun hne => ?_⟩
+  have := hk.2.1 (runs_ne_nil hne)
+  simpa [streakCount, runSum] using this
+
+/-! ### D2 one pairing: separation violations ≤ number of meetings -/
+
+theorem gaps_length (M : List Nat) : ((gaps M).length : Int) ≤ M.length := by
+  induction M with
+  | nil => simp [gaps]
+  | cons a M ih =>
+    cases M with
+    | nil => simp [gaps]
+    | cons b M => simp only [gaps, List.length_cons] at ih ⊢; omega
+
+theorem gaps_range (D : Nat) (M : List Nat) (hp : List.Pairwise (· < ·) M) (hD : ∀ m ∈ M, m < D) :
+    ∀ g ∈ gaps M, 0 ≤ g ∧ g ≤ (D : Int) - 2 := by
+  induction M with
+  | nil => simp [gaps]
+  | cons a M ih =>
+    cases M with
+    | nil => simp [gaps]
+    | cons b M =>
+      rw [List.pairwise_cons] at hp
+      intro g hg
+      simp only [gaps, List.mem_cons] at hg
+      rcases hg with rfl | hg
+      · have := hp.1 b (by simp)
+        have := hD b (by simp)
+        omega
+      · exact ih hp.2 (fun m hm => hD m (by simp [hm])) g (by simpa [gaps] using hg)
+
+theorem sepCount_le (c : Cfg) (p : Plan) (t o : Nat) (h1 : c.smin ≤ 1) (h2 : (p.length : Int) - 2 ≤ c.smax) :
+    sepCount c p t o ≤ (meetingDays p t o).length := by
+  have hr := gaps_range p.length (meetingDays p t o) (meetingDays_sorted p t o)
+    (fun m hm => by unfold meetingDays at hm; simp at hm; exact hm.1)
+  have hl := gaps_length (meetingDays p t o)
+  have key : ∀ (L : List Int), (∀ g ∈ L, 0 ≤ g ∧ g ≤ (p.length : Int) - 2) →
+      (L.map (gapPenalty c)).sum ≤ L.length := by
+    intro L
+    induction L with
+    | nil => simp
+    | cons g L ih =>
+      intro hL
+      have hg := hL g (by simp)
+      have := ih (fun x hx => hL x (by simp [hx]))
+      have : gapPenalty c g ≤ 1 := by
+        simp only [gapPenalty, posPart]; repeat' split
+        all_goals omega
+      simp only [List.map_cons, List.sum_cons, List.length_cons]; omega
+  have := key _ hr
+  unfold sepCount; omega
+
+theorem md_length (o : Nat) (vs : List Int) : ∀ d,
+    (md o d vs).length = vs.count ((o : Int) + 1) + vs.count (-((o : Int) + 1)) := by
+  induction vs with
+  | nil => intro d; simp [md]
+  | cons v vs ih =>
+    intro d
+    simp only [md, List.count_cons]
+    by_cases h : v.natAbs = o + 1
+    · simp only [h, if_true, List.length_cons, ih (d + 1)]
+      by_cases hp : v = (o : Int) + 1
+      · have e : ¬ (o : Int) + 1 = -((o : Int) + 1) := by omega
+        subst hp
+        simp [e]; omega
+      · have hn : v = -((o : Int) + 1) := by omega
+        have e : ¬ -((o : Int) + 1) = (o : Int) + 1 := by omega
+        subst hn
+        simp [e]; omega
+    · have e1 : ¬ v = (o : Int) + 1 := by omega
+      have e2 : ¬ v = -((o : Int) + 1) := by omega
+      simp [h, ih (d + 1), e1, e2]
+
+theorem meetingDays_length (p : Plan) (t o : Nat) :
+    (meetingDays p t o).length = homeGames p t o + awayGames p t o := by
+  rw [← md_col, md_length]; rfl
+
+/-! ### D3 double counting: every game is seen by both of its teams -/
+
+theorem rsum_comm (m n : Nat) (g : Nat → Nat → Int) :
+    rsum m (fun i => rsum n (fun j => g i j)) = rsum n (fun j => rsum m (fun i => g i j)) := by
+  induction m with
+  | zero => simp [rsum_zero, rsum_const_zero]
+  | succ m ih =>
+    rw [rsum_succ, ih, ← rsum_add]
+    apply rsum_congr; intro j _; rw [rsum_succ]
+
+theorem rsum_indicator (f : Nat → Int) (n : Nat) : ∀ i, i ≤ n →
+    rsum i f = rsum n (fun j => if j < i then f j else 0) := by
+  induction n with
+  | zero => intro i hi; have : i = 0 := by omega
+            subst this; simp [rsum_zero]
+  | succ n ih =>
+    intro i hi
+    rw [rsum_succ]
+    by_cases e : i = n + 1
+    · subst e
+      rw [rsum_succ]
+      have : rsum n (fun j => if j < n + 1 then f j else 0) = rsum n f :=
+        rsum_congr (fun j hj => by simp [show j < n + 1 by omega])
+      rw [this]; simp
+    · rw [← ih i (by omega)]
+      have : ¬ n < i := by omega
+      simp [this]
+
+/-- sum over the pairs `j < i < n`, seen from the smaller index -/
+theorem rsum_triangle_swap (n : Nat) (f : Nat → Nat → Int) :
+    rsum n (fun i => rsum i (fun j => f i j)) =
+      rsum n (fun j => rsum n (fun i => if j < i then f i j else 0)) := by
+  have : rsum n (fun i => rsum i (fun j => f i j))
+      = rsum n (fun i => rsum n (fun j => if j < i then f i j else 0)) :=
+    rsum_congr (fun i hi => rsum_indicator (fun j => f i j) n i (by omega))
+  rw [this, rsum_comm]
+
+theorem indicator_sum (v : Int) (n : Nat) :
+    rsum n (fun o => (if v = (o : Int) + 1 then 1 else 0) + (if v = -((o : Int) + 1) then 1 else 0))
+      = if v ≠ 0 ∧ v.natAbs ≤ n then 1 else 0 := by
+  induction n with
+  | zero =>
+    have : ¬ (v ≠ 0 ∧ v.natAbs ≤ 0) := by omega
+    simp [rsum_zero]
+  | succ n ih =>
+    rw [rsum_succ, ih]
+    by_cases a1 : v = (n : Int) + 1 <;> by_cases a2 : v = -((n : Int) + 1) <;>
+      by_cases a3 : (v ≠ 0 ∧ v.natAbs ≤ n) <;> by_cases a4 : (v ≠ 0 ∧ v.natAbs ≤ n + 1) <;>
+      simp only [a1, a2, a3, a4, if_true, if_false] <;> omega
+
+def oppCount (vs : List Int) (o : Nat) : Int := (vs.count ((o : Int) + 1) : Int) + vs.count (-((o : Int) + 1))
+
+theorem oppCount_sum (n : Nat) (vs : List Int) : rsum n (oppCount vs) + count0 vs ≤ vs.length := by
+  induction vs with
+  | nil =>
+    have : oppCount [] = fun _ => 0 := by funext o; simp [oppCount]
+    rw [this, rsum_const_zero]; simp [count0]
+  | cons v vs ih =>
+    have e : rsum n (oppCount (v :: vs)) = rsum n (oppCount vs)
+        + rsum n (fun o => (if v = (o : Int) + 1 then 1 else 0) + (if v = -((o : Int) + 1) then 1 else 0)) := by
+      rw [← rsum_add]
+      apply rsum_congr; intro o _
+      simp only [oppCount, List.count_cons, beq_iff_eq]
+      repeat' split
+      all_goals omega
+    rw [e, indicator_sum]
+    simp only [count0, List.length_cons]
+    by_cases h0 : v = 0
+    · have : ¬ (v ≠ 0 ∧ v.natAbs ≤ n) := by omega
+      simp only [h0, if_true]; omega
+    · simp only [h0, if_false]
+      split <;> omega
+
+theorem rsum_const (k : Nat) (x : Int) : rsum k (fun _ => x) = k * x := by
+  induction k with
+  | zero => simp [rsum_zero]
+  | succ k ih =>
+    rw [rsum_succ, ih]
+    have : ((k + 1 : Nat) : Int) * x = k * x + x := by
+      rw [Int.natCast_add, Int.add_mul]; simp
+    omega
+
+theorem rsum_tri_const (n : Nat) (x : Int) : rsum n (fun i => rsum i (fun _ => x)) = tri n * x := by
+  induction n with
+  | zero => simp [rsum_zero, tri]
+  | succ n ih =>
+    rw [rsum_succ, ih, rsum_const, tri_succ, Int.natCast_add, Int.add_mul]
+
+theorem two_tri (n : Nat) : 2 * tri n = n * (n - 1) := by
+  induction n with
+  | zero => simp [tri]
+  | succ n ih =>
+    rw [tri_succ, Nat.mul_add, ih]
+    cases n with
+    | zero => simp
+    | succ m =>
+      simp only [Nat.add_sub_cancel]
+      rw [Nat.mul_comm 2 (m + 1), ← Nat.mul_add]
+      exact Nat.mul_comm _ _
+
+/-! ### D4 the bound -/
+
+theorem oppCount_nonneg (vs : List Int) (o : Nat) : 0 ≤ oppCount vs o := by unfold oppCount; omega
+
+theorem oppCount_col (p : Plan) (t o : Nat) :
+    oppCount (col p t) o = (homeGames p t o : Int) + awayGames p t o := rfl
+
+theorem doc_le_upper (n rounds : Nat) (c : Cfg) (p : Plan) (hn : 2 ≤ n) (hr : 1 ≤ rounds)
+    (hp : InSpace n rounds p) (hc : Consistent n p) (h1 : c.hmin ≤ 1) (h2 : 1 ≤ c.hmax) (h3 : c.amin ≤ 1)
+    (h4 : 1 ≤ c.amax) (h5 : c.smin ≤ 1) (h6 : (((n - 1) * rounds : Nat) : Int) - 2 ≤ c.smax) :
+    documentedCount n rounds c p ≤ upperBound n rounds := by
+  obtain ⟨hlen, hrows⟩ := hp
+  rw [← hlen] at h6
+  -- abbreviations
+  have hH : ∃ H : Int, H = rsum n (fun i => rsum i (fun j => (homeGames p i j : Int) + homeGames p j i)) := ⟨_, rfl⟩
+  obtain ⟨H, hHdef⟩ := hH
+  have hcol : ∀ t, ((col p t).length : Int) = p.length := fun t => by rw [col_length]
+  -- (i) byes + streaks
+  have hA : rsum n (fun t => count0 (col p t)) + rsum n (fun t => streakCount c (col p t)) ≤ n * (p.length : Int) := by
+    rw [← rsum_add, ← rsum_const]
+    apply rsum_le; intro t _
+    have := (col_bound c h1 h2 h3 h4 (col p t)).1
+    rw [hcol] at this; exact this
+  have hA' : 1 ≤ p.length → rsum n (fun t => streakCount c (col p t)) ≤ n * ((p.length : Int) - 1) := by
+    intro hD
+    rw [← rsum_const]
+    apply rsum_le; intro t _
+    have hne : col p t ≠ [] := by
+      intro h; have := col_length p t; rw [h] at this; simp at this; omega
+    have := (col_bound c h1 h2 h3 h4 (col p t)).2 hne
+    rw [hcol] at this; exact this
+  have hS2 : 0 ≤ rsum n (fun t => streakCount c (col p t)) := rsum_nonneg (fun t _ => streakCount_nonneg _ _)
+  -- (ii) separation
+  have hS3 : rsum n (fun i => rsum i (fun j => sepCount c p j i)) ≤ H := by
+    rw [hHdef]
+    apply rsum_le; intro i hi; apply rsum_le; intro j hj
+    have hjn : j < n := by omega
+    have := sepCount_le c p j i h5 h6
+    rw [meetingDays_length] at this
+    have e := home_away hc hjn hi   -- homeGames p i j = awayGames p j i
+    omega
+  -- (iii) balance
+  have hS4 : rsum n (fun i => rsum i (fun j =>
+      posPart ((((homeGames p i j : Int) - homeGames p j i).natAbs : Int) - 1))) ≤ H := by
+    rw [hHdef]
+    apply rsum_le; intro i _; apply rsum_le; intro j _
+    simp only [posPart]; split <;> omega
+  -- (iv) pair counts
+  have hS5 : rsum n (fun i => rsum i (fun j =>
+      ((((homeGames p i j : Int) + awayGames p i j) - rounds).natAbs : Int))) ≤ H + tri n * (rounds : Int) := by
+    rw [hHdef, ← rsum_tri_const, ← rsum_add]
+    apply rsum_le; intro i hi
+    rw [← rsum_add]
+    apply rsum_le; intro j hj
+    have e := home_away hc hi (show j < n by omega)   -- homeGames p j i = awayGames p i j
+    omega
+  -- (v) every game is seen by both of its teams
+  have hV : 2 * H ≤ n * (p.length : Int) - rsum n (fun t => count0 (col p t)) := by
+    have e1 : H = rsum n (fun t => rsum n (fun o => if o < t then oppCount (col p t) o else 0)) := by
+      rw [hHdef]
+      apply rsum_congr; intro i hi
+      rw [← rsum_indicator (fun o => oppCount (col p i) o) n i (by omega)]
+      apply rsum_congr; intro j hj
+      have e := home_away hc hi (show j < n by omega)
+      rw [oppCount_col]; omega
+    have e2 : H = rsum n (fun t => rsum n (fun o => if t < o then oppCount (col p t) o else 0)) := by
+      rw [hHdef, ← rsum_triangle_swap n (fun i j => oppCount (col p j) i)]
+      apply rsum_congr; intro i hi; apply rsum_congr; intro j hj
+      have e := home_away hc (show j < n by omega) hi
+      rw [oppCount_col]; omega
+    have e3 : 2 * H = rsum n (fun t => rsum n (fun o =>
+        (if o < t then oppCount (col p t) o else 0) + (if t < o then oppCount (col p t) o else 0))) := by
+      have : ∀ t, rsum n (fun o => (if o < t then oppCount (col p t) o else 0) + (if t < o then oppCount (col p t) o else 0))
+          = rsum n (fun o => if o < t then oppCount (col p t) o else 0)
+            + rsum n (fun o => if t < o then oppCount (col p t) o else 0) := fun t => rsum_add _ _ _
+      rw [rsum_congr (fun t _ => this t), rsum_add, ← e1, ← e2]; omega
+    have e4 : rsum n (fun t => rsum n (fun o =>
+        (if o < t then oppCount (col p t) o else 0) + (if t < o then oppCount (col p t) o else 0)))
+        ≤ rsum n (fun t => (p.length : Int) - count0 (col p t)) := by
+      apply rsum_le; intro t _
+      have h := oppCount_sum n (col p t)
+      rw [hcol] at h
+      have : rsum n (fun o => (if o < t then oppCount (col p t) o else 0) + (if t < o then oppCount (col p t) o else 0))
+          ≤ rsum n (oppCount (col p t)) := by
+        apply rsum_le; intro o _
+        have := oppCount_nonneg (col p t) o
+        split <;> split <;> omega
+      omega
+    have e5 : rsum n (fun t => (p.length : Int) - count0 (col p t))
+        = n * (p.length : Int) - rsum n (fun t => count0 (col p t)) := by
+      have := rsum_add n (fun t => (p.length : Int) - count0 (col p t)) (fun t => count0 (col p t))
+      have h2 : rsum n (fun t => (p.length : Int) - count0 (col p t) + count0 (col p t)) = n * (p.length : Int) := by
+        rw [← rsum_const]; apply rsum_congr; intro t _; omega
+      omega
+    omega
+  have hS1 : 0 ≤ rsum n (fun t => count0 (col p t)) := rsum_nonneg (fun t _ => count0_nonneg _)
+  -- the arithmetic
+  have hT : 2 * ((tri n : Int) * rounds) = n * (p.length : Int) := by
+    have := two_tri n
+    rw [hlen]
+    have e : ((2 * tri n : Nat) : Int) * rounds = ((n * (n - 1) : Nat) : Int) * rounds := by rw [this]
+    rw [Int.natCast_mul, Int.natCast_mul] at e
+    rw [Int.natCast_mul, ← Int.mul_assoc, ← Int.mul_assoc]
+    simpa using e
+  have hUB : upperBound n rounds = 4 * ((n : Int) * p.length) - n - 1 := by
+    unfold upperBound
+    rw [hlen, Int.natCast_mul, Int.natCast_sub (by omega : 1 ≤ n)]
+    rw [Int.sub_mul, Int.mul_assoc, Int.mul_comm _ (n : Int)]
+    simp
+  rw [doc_rsum, hUB]
+  have hDpos : 1 ≤ p.length := by
+    rw [hlen]; exact Nat.mul_pos (by omega) hr
+  by_cases hD2 : 2 ≤ p.length
+  · have hX : (n : Int) * 2 ≤ n * (p.length : Int) := by
+      have : n * 2 ≤ n * p.length := Nat.mul_le_mul_left n hD2
+      have := Int.ofNat_le.mpr this
+      simpa [Int.natCast_mul] using this
+    omega
+  · have hD1 : p.length = 1 := by omega
+    have := hA' hDpos
+    rw [hD1] at this hV hA hT ⊢
+    simp only [Int.natCast_one, Int.sub_self, Int.mul_zero, Int.mul_one] at this hV hA hT ⊢
+    omega
+
 end TtpErrors
